@@ -1,597 +1,21 @@
 /-
-C26 — theorems.  See Model/C26.lean for the model.
+C26 — theorems.  Model: Model/C26.lean (over the block state of Model/C17, finalisation included);
+per-state lemmas: Lib/C26Core.lean; header-table invariant: Lib/C26Db.lean.
 
 Spec vocabulary
 * `AncI st a h` : `a` is the hash `h` or the hash of an ancestor of `h`, following parent links through the
-  headers `GetHeader` answers (an inductive relation, no fuel).
+  headers `GetHeader` answers (unfinalised blocks and the finalised header table) — no fuel.
 * `Anc st a hdr` : `a` is `hdr`'s own hash or `AncI` of its parent — "`a` lies on `hdr`'s own fork".
-  `hdr` itself need not be imported (the Go code supports headers "not fully imported by the blocktree").
+  `hdr` itself need not be imported ("not fully imported by the blocktree", the block being imported).
 * `Visible … hdr e` : a definition for epoch `e` exists that `hdr` may use: a persisted one, or an in-memory
   announcement made by a block on `hdr`'s own fork.
+* `WF u st` : the invariant of reachable block states (C17's `Inv` + the header-table invariant `DbInv`).
 -/
-import Gossamer.Model.C26
+import Gossamer.Lib.C26Core
 namespace Gossamer.C26
+open Gossamer.C17 (Blk findB)
 
-inductive AncI (st : St) : Nat → Nat → Prop
-  | self {h : Nat} {x : Hdr} : getHeader st h = some x → AncI st h h
-  | step {a h : Nat} {x : Hdr} : getHeader st h = some x → AncI st a x.parent → AncI st a h
-
-def Anc (st : St) (a : Nat) (hdr : Hdr) : Prop := a = hdr.hash ∨ AncI st a hdr.parent
-
-/-- the hash determines the header (true of Go's blake2b header hash) -/
-def Consistent (st : St) (hdr : Hdr) : Prop := ∀ x, getHeader st hdr.hash = some x → x = hdr
-
-/-- `hdr.number` is one more than its parent's, when the parent is known (AddBlock enforces it for
-    imported headers; for a header that is not imported it is an assumption on the caller) -/
-def HdrOK (st : St) (hdr : Hdr) : Prop := ∀ p, getHeader st hdr.parent = some p → p.number + 1 = hdr.number
-
-structure WF (st : St) : Prop where
-  nozero : ∀ x ∈ st.imported, x.hash ≠ 0
-  num : ∀ x ∈ st.imported, HdrOK st x
-  closed : ∀ x ∈ st.imported, x.parent ≠ 0 → (getHeader st x.parent).isSome
-  uniq : ∀ x ∈ st.imported, getHeader st x.hash = some x
-
-/-! ### basic facts -/
-
-theorem getHeader_some {st : St} {h : Nat} {x : Hdr} (hx : getHeader st h = some x) :
-    x ∈ st.imported ∧ x.hash = h := by
-  unfold getHeader at hx
-  exact ⟨List.mem_of_find?_eq_some hx, by simpa using List.find?_some hx⟩
-
-theorem getHeader_zero {st : St} (hwf : WF st) : getHeader st 0 = none := by
-  cases h : getHeader st 0 with
-  | none => rfl
-  | some x => exact absurd (getHeader_some h).2 (hwf.nozero x (getHeader_some h).1)
-
-theorem consistent_of_getHeader {st : St} {h : Nat} {p : Hdr} (hp : getHeader st h = some p) :
-    Consistent st p := by
-  intro x hx
-  rw [(getHeader_some hp).2, hp] at hx
-  exact (Option.some.inj hx).symm
-
-theorem AncI.inv {st : St} {a h : Nat} (H : AncI st a h) :
-    ∃ x, getHeader st h = some x ∧ (a = h ∨ AncI st a x.parent) := by
-  cases H with
-  | self hx => exact ⟨_, hx, .inl rfl⟩
-  | step hx hr => exact ⟨_, hx, .inr hr⟩
-
-theorem ancList_sound (st : St) : ∀ (f h a : Nat), a ∈ ancList st f h → AncI st a h
-  | 0, _, _, hm => by simp [ancList] at hm
-  | f + 1, h, a, hm => by
-    unfold ancList at hm
-    cases hx : getHeader st h with
-    | none => simp [hx] at hm
-    | some x =>
-      simp only [hx, List.mem_cons] at hm
-      rcases hm with rfl | hm
-      · exact .self hx
-      · exact .step hx (ancList_sound st f x.parent a hm)
-
-theorem isDesc_sound {st : St} {a d : Nat} (h : isDesc st a d = some true) : AncI st a d ∨ a = d := by
-  unfold isDesc at h
-  by_cases had : a = d
-  · exact .inr had
-  · simp only [had, if_false] at h
-    cases ha : getHeader st a with
-    | none => simp [ha] at h
-    | some y =>
-      cases hd : getHeader st d with
-      | none => simp [ha, hd] at h
-      | some x =>
-        simp only [ha, hd, Option.some.injEq, decide_eq_true_eq] at h
-        exact .inl (ancList_sound st _ _ _ h)
-
-theorem hit_sound {st : St} {cur : Hdr} (hc : Consistent st cur) {e : Nat × Nat}
-    (h : hit st cur.hash e = true) : Anc st e.1 cur := by
-  unfold hit at h
-  simp only [Bool.or_eq_true, decide_eq_true_eq, beq_iff_eq] at h
-  rcases h with h | h
-  · exact .inl h
-  · rcases isDesc_sound h with h | h
-    · obtain ⟨x, hx, hr⟩ := h.inv
-      rcases hr with hr | hr
-      · exact .inl hr
-      · rw [hc _ hx] at hr; exact .inr hr
-    · exact .inl h
-
-/-! ### findAncestor: soundness, completeness, termination -/
-
-theorem findAnc_sound (st : St) (entries : Entries) : ∀ (f : Nat) (cur : Hdr) (c : Entries),
-    Consistent st cur → findAnc st entries f cur = .found c →
-    c ≠ [] ∧ ∀ x ∈ c, x ∈ entries ∧ Anc st x.1 cur
-  | 0, _, _, _, h => by simp [findAnc] at h
-  | f + 1, cur, c, hc, h => by
-    unfold findAnc at h
-    simp only at h
-    by_cases hne : entries.filter (hit st cur.hash) ≠ []
-    · rw [if_pos hne] at h
-      cases h
-      refine ⟨hne, fun x hx => ?_⟩
-      have := List.mem_filter.mp hx
-      exact ⟨this.1, hit_sound hc this.2⟩
-    · simp only [hne, if_false] at h
-      by_cases hp0 : cur.parent = 0
-      · simp [hp0] at h
-      · simp only [hp0, if_false] at h
-        cases hp : getHeader st cur.parent with
-        | none => simp [hp] at h
-        | some p =>
-          simp only [hp] at h
-          have ih := findAnc_sound st entries f p c (consistent_of_getHeader hp) h
-          refine ⟨ih.1, fun x hx => ⟨(ih.2 x hx).1, ?_⟩⟩
-          rcases (ih.2 x hx).2 with he | he
-          · refine .inr ?_
-            rw [he, (getHeader_some hp).2]
-            exact .self hp
-          · exact .inr (.step hp he)
-
-theorem findAnc_complete (st : St) (hwf : WF st) (entries : Entries) : ∀ (f : Nat) (cur : Hdr),
-    findAnc st entries f cur = .errHash → ∀ x ∈ entries, ¬ Anc st x.1 cur
-  | 0, _, h => by simp [findAnc] at h
-  | f + 1, cur, h => by
-    unfold findAnc at h
-    simp only at h
-    by_cases hne : entries.filter (hit st cur.hash) ≠ []
-    · simp [hne] at h
-    · simp only [hne, if_false] at h
-      have hnil : entries.filter (hit st cur.hash) = [] := by simpa using hne
-      have hmiss : ∀ x ∈ entries, x.1 ≠ cur.hash := by
-        intro x hx heq
-        have hh : hit st cur.hash x = true := by simp [hit, heq]
-        have : x ∈ entries.filter (hit st cur.hash) := List.mem_filter.mpr ⟨hx, hh⟩
-        rw [hnil] at this
-        exact absurd this (by simp)
-      by_cases hp0 : cur.parent = 0
-      · intro x hx ha
-        rcases ha with ha | ha
-        · exact hmiss x hx ha
-        · rw [hp0] at ha
-          obtain ⟨y, hy, _⟩ := ha.inv
-          rw [getHeader_zero hwf] at hy
-          cases hy
-      · simp only [hp0, if_false] at h
-        cases hp : getHeader st cur.parent with
-        | none => simp [hp] at h
-        | some p =>
-          simp only [hp] at h
-          have ih := findAnc_complete st hwf entries f p h
-          intro x hx ha
-          rcases ha with ha | ha
-          · exact hmiss x hx ha
-          · obtain ⟨y, hy, hr⟩ := ha.inv
-            rw [hp] at hy
-            cases hy
-            rcases hr with hr | hr
-            · exact ih x hx (.inl (hr.trans (getHeader_some hp).2.symm))
-            · exact ih x hx (.inr hr)
-
-theorem findAnc_fuel (st : St) (hwf : WF st) (entries : Entries) : ∀ (f : Nat) (cur : Hdr),
-    HdrOK st cur → cur.number < f → findAnc st entries f cur ≠ .outOfFuel
-  | 0, _, _, hlt => by omega
-  | f + 1, cur, hok, hlt => by
-    unfold findAnc
-    simp only
-    by_cases hne : entries.filter (hit st cur.hash) ≠ []
-    · simp [hne]
-    · simp only [hne, if_false]
-      by_cases hp0 : cur.parent = 0
-      · simp [hp0]
-      · simp only [hp0, if_false]
-        cases hp : getHeader st cur.parent with
-        | none => simp
-        | some p =>
-          simp only
-          have := hok p hp
-          exact findAnc_fuel st hwf entries f p (hwf.num p (getHeader_some hp).1) (by omega)
-
-theorem findAnc_mono (st : St) (entries : Entries) : ∀ (f f' : Nat) (cur : Hdr),
-    findAnc st entries f cur ≠ .outOfFuel → f ≤ f' → findAnc st entries f' cur = findAnc st entries f cur
-  | 0, _, _, h, _ => by simp [findAnc] at h
-  | f + 1, 0, _, _, hle => by omega
-  | f + 1, f' + 1, cur, h, hle => by
-    unfold findAnc at h ⊢
-    simp only at h ⊢
-    by_cases hne : entries.filter (hit st cur.hash) ≠ []
-    · simp [hne]
-    · simp only [hne, if_false] at h ⊢
-      by_cases hp0 : cur.parent = 0
-      · simp [hp0]
-      · simp only [hp0, if_false] at h ⊢
-        cases hp : getHeader st cur.parent with
-        | none => simp
-        | some p =>
-          simp only [hp] at h ⊢
-          exact findAnc_mono st entries f f' p h (by omega)
-
-theorem findAnc_errParent (st : St) (hwf : WF st) (entries : Entries) : ∀ (f : Nat) (cur : Hdr),
-    findAnc st entries f cur = .errParent → getHeader st cur.parent = none ∧ cur.parent ≠ 0
-  | 0, _, h => by simp [findAnc] at h
-  | f + 1, cur, h => by
-    unfold findAnc at h
-    simp only at h
-    by_cases hne : entries.filter (hit st cur.hash) ≠ []
-    · simp [hne] at h
-    · simp only [hne, if_false] at h
-      by_cases hp0 : cur.parent = 0
-      · simp [hp0] at h
-      · simp only [hp0, if_false] at h
-        cases hp : getHeader st cur.parent with
-        | none => exact ⟨rfl, hp0⟩
-        | some p =>
-          simp only [hp] at h
-          have ih := findAnc_errParent st hwf entries f p h
-          have := hwf.closed p (getHeader_some hp).1 ih.2
-          rw [ih.1] at this
-          cases this
-
-/-! ### Retrieve -/
-
-theorem retrieve_mem {st : St} {m : EpochMap} {e : Nat} {hdr : Hdr} {c : Entries} (hc : Consistent st hdr)
-    (h : retrieve st m e hdr = .mem c) :
-    c ≠ [] ∧ ∃ es, lookup m e = some es ∧ ∀ x ∈ c, x ∈ es ∧ Anc st x.1 hdr := by
-  unfold retrieve at h
-  cases hl : lookup m e with
-  | none => simp [hl] at h
-  | some es =>
-    simp only [hl] at h
-    cases hf : findAnc st es (hdr.number + 1) hdr with
-    | found c' =>
-      simp only [hf, Res.mem.injEq] at h
-      subst h
-      have := findAnc_sound st es _ hdr c' hc hf
-      exact ⟨this.1, es, rfl, this.2⟩
-    | errHash => simp [hf] at h
-    | errParent => simp [hf] at h
-    | outOfFuel => simp [hf] at h
-
-theorem retrieve_errHash {st : St} (hwf : WF st) {m : EpochMap} {e : Nat} {hdr : Hdr}
-    (h : retrieve st m e hdr = .errHash) : ∃ es, lookup m e = some es ∧ ∀ x ∈ es, ¬ Anc st x.1 hdr := by
-  unfold retrieve at h
-  cases hl : lookup m e with
-  | none => simp [hl] at h
-  | some es =>
-    simp only [hl] at h
-    cases hf : findAnc st es (hdr.number + 1) hdr with
-    | found c' => simp [hf] at h
-    | errHash => exact ⟨es, rfl, findAnc_complete st hwf es _ hdr hf⟩
-    | errParent => simp [hf] at h
-    | outOfFuel => simp [hf] at h
-
-theorem retrieve_errEpoch {st : St} {m : EpochMap} {e : Nat} {hdr : Hdr}
-    (h : retrieve st m e hdr = .errEpoch) : lookup m e = none := by
-  unfold retrieve at h
-  cases hl : lookup m e with
-  | none => rfl
-  | some es =>
-    simp only [hl] at h
-    cases hf : findAnc st es (hdr.number + 1) hdr <;> simp [hf] at h
-
-theorem retrieve_errParent {st : St} (hwf : WF st) {m : EpochMap} {e : Nat} {hdr : Hdr}
-    (h : retrieve st m e hdr = .errParent) : getHeader st hdr.parent = none ∧ hdr.parent ≠ 0 := by
-  unfold retrieve at h
-  cases hl : lookup m e with
-  | none => simp [hl] at h
-  | some es =>
-    simp only [hl] at h
-    cases hf : findAnc st es (hdr.number + 1) hdr with
-    | errParent => exact findAnc_errParent st hwf es _ hdr hf
-    | found c' => simp [hf] at h
-    | errHash => simp [hf] at h
-    | outOfFuel => simp [hf] at h
-
-theorem retrieve_no_timeout {st : St} (hwf : WF st) (m : EpochMap) (e : Nat) {hdr : Hdr} (hok : HdrOK st hdr) :
-    retrieve st m e hdr ≠ .timeout := by
-  unfold retrieve
-  cases hl : lookup m e with
-  | none => simp
-  | some es =>
-    simp only
-    have := findAnc_fuel st hwf es (hdr.number + 1) hdr hok (by omega)
-    cases hf : findAnc st es (hdr.number + 1) hdr with
-    | outOfFuel => exact absurd hf this
-    | found c' => simp
-    | errHash => simp
-    | errParent => simp
-
-theorem retrieve_not_gen (st : St) (m : EpochMap) (e : Nat) (hdr : Hdr) : retrieve st m e hdr ≠ .gen := by
-  unfold retrieve
-  cases lookup m e with
-  | none => simp
-  | some es => simp only; cases findAnc st es (hdr.number + 1) hdr <;> simp
-
-theorem retrieve_not_db (st : St) (m : EpochMap) (e : Nat) (hdr : Hdr) (d : Nat) :
-    retrieve st m e hdr ≠ .db d := by
-  unfold retrieve
-  cases lookup m e with
-  | none => simp
-  | some es => simp only; cases findAnc st es (hdr.number + 1) hdr <;> simp
-
-/-! ### property theorems about one state -/
-
-/-- a definition for epoch `e` that `hdr` may use: persisted, or announced in memory on `hdr`'s own fork -/
-def Visible (st : St) (m : EpochMap) (db : List (Nat × Nat)) (hdr : Hdr) (e : Nat) : Prop :=
-  (lookup db e).isSome ∨ ∃ es x, lookup m e = some es ∧ x ∈ es ∧ Anc st x.1 hdr
-
-/-- **own fork**: whatever in-memory epoch data `GetEpochDataRaw` can return (for any Go map order) was
-    announced for that epoch by the queried block itself or by one of its ancestors. -/
-theorem C26_own_fork {st : St} {hdr : Hdr} (hc : Consistent st hdr) {e : Nat} {c : Entries}
-    (h : getEpochDataRaw st e hdr = .mem c) :
-    c ≠ [] ∧ ∃ es, lookup st.nextEpoch e = some es ∧ ∀ x ∈ c, x ∈ es ∧ Anc st x.1 hdr := by
-  unfold getEpochDataRaw at h
-  by_cases he : e = 0
-  · simp [he] at h
-  · simp only [he, if_false] at h
-    cases hd : lookup st.dbEpoch e with
-    | some d => simp [hd] at h
-    | none => simp only [hd] at h; exact retrieve_mem hc h
-
-/-- **no foreign data**: the lookup fails with `errHashNotInMemory` exactly because nothing was announced for
-    the epoch on the block's own fork — another fork's announcement is never handed out instead. -/
-theorem C26_none_on_fork {st : St} (hwf : WF st) {hdr : Hdr} {e : Nat}
-    (h : getEpochDataRaw st e hdr = .errHash) :
-    ∃ es, lookup st.nextEpoch e = some es ∧ ∀ x ∈ es, ¬ Anc st x.1 hdr := by
-  unfold getEpochDataRaw at h
-  by_cases he : e = 0
-  · simp [he] at h
-  · simp only [he, if_false] at h
-    cases hd : lookup st.dbEpoch e with
-    | some d => simp [hd] at h
-    | none => simp only [hd] at h; exact retrieve_errHash hwf h
-
-/-- **fails promptly**: the `findAncestor` loop ends within `number + 1` iterations. -/
-theorem C26_terminates {st : St} (hwf : WF st) (entries : Entries) {hdr : Hdr} (hok : HdrOK st hdr) :
-    ∃ fuel, fuel ≤ hdr.number + 1 ∧ findAnc st entries fuel hdr ≠ .outOfFuel :=
-  ⟨hdr.number + 1, Nat.le_refl _, findAnc_fuel st hwf entries _ hdr hok (by omega)⟩
-
-/-- once the loop has ended, more iterations allowed change nothing: the fuelled model is the Go loop -/
-theorem C26_fuel_stable (st : St) (entries : Entries) (f f' : Nat) (hdr : Hdr)
-    (h : findAnc st entries f hdr ≠ .outOfFuel) (hle : f ≤ f') :
-    findAnc st entries f' hdr = findAnc st entries f hdr := findAnc_mono st entries f f' hdr h hle
-
-theorem getConfigData_no_timeout {st : St} (hwf : WF st) {hdr : Hdr} (hok : HdrOK st hdr) :
-    ∀ e, getConfigData st hdr e ≠ .timeout
-  | 0 => by simp [getConfigData]
-  | e + 1 => by
-    unfold getConfigData
-    cases hd : lookup st.dbConfig (e + 1) with
-    | some d => simp
-    | none =>
-      simp only
-      have ht := retrieve_no_timeout hwf st.nextConfig (e + 1) hok
-      cases hr : retrieve st st.nextConfig (e + 1) hdr with
-      | timeout => exact absurd hr ht
-      | errEpoch => exact getConfigData_no_timeout hwf hok e
-      | errHash => exact getConfigData_no_timeout hwf hok e
-      | gen => simp
-      | db d => simp
-      | mem c => simp
-      | errParent => simp
-
-/-- **never hangs**: neither lookup is still running after `number + 1` iterations -/
-theorem C26_never_hangs {st : St} (hwf : WF st) {hdr : Hdr} (hok : HdrOK st hdr) (e : Nat) :
-    getEpochDataRaw st e hdr ≠ .timeout ∧ getConfigData st hdr e ≠ .timeout := by
-  refine ⟨?_, getConfigData_no_timeout hwf hok e⟩
-  unfold getEpochDataRaw
-  by_cases he : e = 0
-  · simp [he]
-  · simp only [he, if_false]
-    cases hd : lookup st.dbEpoch e with
-    | some d => simp
-    | none => exact retrieve_no_timeout hwf st.nextEpoch e hok
-
-/-- what `GetConfigData(e, hdr)` must be: the definition of the latest epoch `e' ≤ e` that has one visible to
-    `hdr` (persisted first, else announced on `hdr`'s own fork), the genesis configuration when there is none;
-    an error only when `hdr`'s parent is unknown. -/
-def CfgSpec (st : St) (hdr : Hdr) (e : Nat) : Res → Prop
-  | .gen => ∀ e', 1 ≤ e' → e' ≤ e → ¬ Visible st st.nextConfig st.dbConfig hdr e'
-  | .db d => ∃ e', 1 ≤ e' ∧ e' ≤ e ∧ lookup st.dbConfig e' = some d ∧
-      ∀ e'', e' < e'' → e'' ≤ e → ¬ Visible st st.nextConfig st.dbConfig hdr e''
-  | .mem c => c ≠ [] ∧ ∃ e' es, 1 ≤ e' ∧ e' ≤ e ∧ lookup st.dbConfig e' = none ∧
-      lookup st.nextConfig e' = some es ∧ (∀ x ∈ c, x ∈ es ∧ Anc st x.1 hdr) ∧
-      ∀ e'', e' < e'' → e'' ≤ e → ¬ Visible st st.nextConfig st.dbConfig hdr e''
-  | .errParent => getHeader st hdr.parent = none ∧ hdr.parent ≠ 0
-  | .errEpoch => False
-  | .errHash => False
-  | .timeout => False
-
-theorem CfgSpec_lift {st : St} {hdr : Hdr} {e : Nat} (hnv : ¬ Visible st st.nextConfig st.dbConfig hdr (e + 1))
-    {r : Res} (h : CfgSpec st hdr e r) : CfgSpec st hdr (e + 1) r := by
-  have key : ∀ e' e'', e' ≤ e → e' < e'' → e'' ≤ e + 1 →
-      (∀ k, e' < k → k ≤ e → ¬ Visible st st.nextConfig st.dbConfig hdr k) →
-      ¬ Visible st st.nextConfig st.dbConfig hdr e'' := by
-    intro e' e'' _ h2 h3 hall
-    by_cases hk : e'' = e + 1
-    · rw [hk]; exact hnv
-    · exact hall e'' h2 (by omega)
-  cases r with
-  | gen =>
-    intro e' h1 h2
-    by_cases hk : e' = e + 1
-    · rw [hk]; exact hnv
-    · exact h e' h1 (by omega)
-  | db d =>
-    obtain ⟨e', h1, h2, h3, h4⟩ := h
-    exact ⟨e', h1, by omega, h3, fun e'' a b => key e' e'' h2 a b h4⟩
-  | mem c =>
-    obtain ⟨hne, e', es, h1, h2, h3, h4, h5, h6⟩ := h
-    exact ⟨hne, e', es, h1, by omega, h3, h4, h5, fun e'' a b => key e' e'' h2 a b h6⟩
-  | errParent => exact h
-  | errEpoch => exact h
-  | errHash => exact h
-  | timeout => exact h
-
-/-- **latest earlier configuration** -/
-theorem C26_config_latest_earlier {st : St} (hwf : WF st) {hdr : Hdr} (hc : Consistent st hdr)
-    (hok : HdrOK st hdr) : ∀ e, CfgSpec st hdr e (getConfigData st hdr e)
-  | 0 => by
-    simp only [getConfigData, CfgSpec]
-    intro e' h1 h2; omega
-  | e + 1 => by
-    have ih := C26_config_latest_earlier hwf hc hok e
-    unfold getConfigData
-    cases hd : lookup st.dbConfig (e + 1) with
-    | some d =>
-      exact ⟨e + 1, by omega, Nat.le_refl _, hd, fun e'' a b => by omega⟩
-    | none =>
-      simp only
-      cases hr : retrieve st st.nextConfig (e + 1) hdr with
-      | errEpoch =>
-        refine CfgSpec_lift ?_ ih
-        rintro (hv | ⟨es, x, hl, _, _⟩)
-        · simp [hd] at hv
-        · rw [retrieve_errEpoch hr] at hl; cases hl
-      | errHash =>
-        refine CfgSpec_lift ?_ ih
-        obtain ⟨es, hl, hno⟩ := retrieve_errHash hwf hr
-        rintro (hv | ⟨es', x, hl', hx, ha⟩)
-        · simp [hd] at hv
-        · rw [hl] at hl'; cases hl'; exact hno x hx ha
-      | mem c =>
-        obtain ⟨hne, es, hl, hall⟩ := retrieve_mem hc hr
-        exact ⟨hne, e + 1, es, by omega, Nat.le_refl _, hd, hl, hall, fun e'' a b => by omega⟩
-      | errParent => exact retrieve_errParent hwf hr
-      | timeout => exact absurd hr (retrieve_no_timeout hwf _ _ hok)
-      | gen => exact absurd hr (retrieve_not_gen _ _ _ _)
-      | db d => exact absurd hr (retrieve_not_db _ _ _ _ _)
-
-/-! ### all histories: the invariant `WF` and where map entries come from -/
-
-theorem getHeader_congr {st st' : St} (h : st'.imported = st.imported) (k : Nat) :
-    getHeader st' k = getHeader st k := by unfold getHeader; rw [h]
-
-theorem WF_congr {st st' : St} (h : st'.imported = st.imported) (hwf : WF st) : WF st' where
-  nozero := by rw [h]; exact hwf.nozero
-  num := by
-    intro x hx p hp
-    rw [h] at hx; rw [getHeader_congr h] at hp
-    exact hwf.num x hx p hp
-  closed := by
-    intro x hx hp
-    rw [h] at hx; rw [getHeader_congr h]
-    exact hwf.closed x hx hp
-  uniq := by
-    intro x hx
-    rw [h] at hx; rw [getHeader_congr h]
-    exact hwf.uniq x hx
-
-theorem WF_init (l : Nat) : WF (St.init l) where
-  nozero := by intro x hx; simp [St.init] at hx; subst hx; decide
-  num := by
-    intro x hx p hp
-    simp [St.init] at hx; subst hx
-    simp [getHeader, St.init, genesis] at hp
-  closed := by intro x hx hp; simp [St.init] at hx; subst hx; simp [genesis] at hp
-  uniq := by intro x hx; simp [St.init] at hx; subst hx; simp [getHeader, St.init]
-
-theorem getHeader_add {st : St} {h : Hdr} (k : Nat) :
-    getHeader { st with imported := st.imported ++ [h] } k =
-      match getHeader st k with
-      | some x => some x
-      | none => if h.hash = k then some h else none := by
-  unfold getHeader
-  simp only [List.find?_append]
-  cases st.imported.find? (fun x => decide (x.hash = k)) with
-  | some x => simp
-  | none => by_cases hk : h.hash = k <;> simp [hk]
-
-theorem WF_add {st st' : St} {h : Hdr} (hwf : WF st) (h0 : h.hash ≠ 0) (ha : addBlock st h = some st') :
-    WF st' := by
-  unfold addBlock at ha
-  cases hp : getHeader st h.parent with
-  | none => simp [hp] at ha
-  | some p =>
-    simp only [hp] at ha
-    cases hh : getHeader st h.hash with
-    | some y => simp [hh] at ha
-    | none =>
-      simp only [hh, Option.isSome_none, Bool.false_eq_true, if_false] at ha
-      by_cases hn : p.number + 1 ≠ h.number
-      · simp [hn] at ha
-      · simp only [hn, if_false, Option.some.injEq] at ha
-        subst ha
-        have hnum : p.number + 1 = h.number := by omega
-        refine ⟨?_, ?_, ?_, ?_⟩
-        · intro x hx
-          simp only [List.mem_append, List.mem_singleton] at hx
-          rcases hx with hx | rfl
-          · exact hwf.nozero x hx
-          · exact h0
-        · intro x hx q hq
-          simp only [List.mem_append, List.mem_singleton] at hx
-          rw [getHeader_add] at hq
-          rcases hx with hx | rfl
-          · cases hxp : getHeader st x.parent with
-            | some y => simp only [hxp, Option.some.injEq] at hq; subst hq; exact hwf.num x hx y hxp
-            | none =>
-              by_cases hz : x.parent = 0
-              · simp only [hxp] at hq
-                by_cases hk : h.hash = x.parent
-                · exact absurd (hk.trans hz) h0
-                · simp [hk] at hq
-              · have := hwf.closed x hx hz
-                rw [hxp] at this; cases this
-          · simp only [hp, Option.some.injEq] at hq; subst hq; exact hnum
-        · intro x hx hz
-          simp only [List.mem_append, List.mem_singleton] at hx
-          rw [getHeader_add]
-          rcases hx with hx | rfl
-          · have := hwf.closed x hx hz
-            cases hxp : getHeader st x.parent with
-            | some y => simp
-            | none => rw [hxp] at this; cases this
-          · simp [hp]
-        · intro x hx
-          simp only [List.mem_append, List.mem_singleton] at hx
-          rw [getHeader_add]
-          rcases hx with hx | rfl
-          · simp [hwf.uniq x hx]
-          · simp [hh]
-
-/-- the only assumption on a history: no imported header hashes to `common.EmptyHash` -/
-def OpOK : Op → Prop
-  | .add h => h.hash ≠ 0
-  | _ => True
-
-instance : DecidablePred OpOK := fun o => by
-  cases o <;> unfold OpOK <;> infer_instance
-
-theorem WF_step {st : St} (hwf : WF st) (o : Op) (ho : OpOK o) : WF (step st o).1 := by
-  cases o with
-  | add h =>
-    simp only [step]
-    cases ha : addBlock st h with
-    | some st' => exact WF_add hwf ho ha
-    | none => exact hwf
-  | ann h d =>
-    simp only [step]
-    cases epochForBlock st h with
-    | some e => exact WF_congr (st := st) rfl hwf
-    | none => exact hwf
-  | cfg h d =>
-    simp only [step]
-    cases epochForBlock st h with
-    | some e => exact WF_congr (st := st) rfl hwf
-    | none => exact hwf
-  | dbe e d => exact WF_congr (st := st) rfl hwf
-  | dbc e d => exact WF_congr (st := st) rfl hwf
-  | restart => exact hwf
-
-theorem foldl_inv {σ α : Type} (f : σ → α → σ) (P : List α → σ → Prop)
-    (hstep : ∀ pre s o, P pre s → P (pre ++ [o]) (f s o)) :
-    ∀ (ops pre : List α) (s : σ), P pre s → P (pre ++ ops) (ops.foldl f s)
-  | [], pre, s, h => by simpa using h
-  | o :: ops, pre, s, h => by
-    have := foldl_inv f P hstep ops (pre ++ [o]) (f s o) (hstep pre s o h)
-    simpa using this
-
-/-- **reachable states are well formed** (for every history) -/
-theorem C26_wf_reachable (l : Nat) (ops : List Op) (hops : ∀ o ∈ ops, OpOK o) : WF (run l ops) := by
-  have := foldl_inv (fun s o => (step s o).1) (fun pre s => (∀ o ∈ pre, OpOK o) → WF s)
-    (fun pre s o ih hpre => WF_step (ih (fun o' ho' => hpre o' (by simp [ho']))) o (hpre o (by simp)))
-    ops [] (St.init l) (fun _ => WF_init l)
-  exact this (by simpa using hops)
-
-/-! #### Go-map lemmas -/
+/-! ### Go-map lemmas -/
 
 theorem lookup_cons {β : Type} (p : Nat × β) (m : List (Nat × β)) (k : Nat) :
     lookup (p :: m) k = if p.1 = k then some p.2 else lookup m k := by
@@ -623,191 +47,963 @@ theorem mem_insert {β : Type} {m : List (Nat × β)} {k : Nat} {v : β} {x : Na
     · exact .inr h
     · exact .inl h
 
-theorem lookup_insert_ne {β : Type} (m : List (Nat × β)) (k k' : Nat) (v : β) (hne : k' ≠ k) :
-    lookup (insert m k v) k' = lookup m k' := by
-  unfold insert
-  by_cases ha : m.any (fun p => p.1 = k) = true
-  · simp only [ha, if_true]
-    clear ha
-    induction m with
-    | nil => rfl
-    | cons p m ih =>
-      rw [List.map_cons, lookup_cons, lookup_cons, ih]
-      by_cases hp : p.1 = k
-      · have : ¬ p.1 = k' := by omega
-        simp [hp, Ne.symm hne]
-      · simp [hp]
-  · simp only [ha, Bool.false_eq_true, if_false]
-    clear ha
-    induction m with
-    | nil => simp [Ne.symm hne, lookup]
-    | cons p m ih => rw [List.cons_append, lookup_cons, lookup_cons, ih]
+theorem mem_erase {β : Type} {m : List (Nat × β)} {k : Nat} {x : Nat × β} (h : x ∈ erase m k) : x ∈ m :=
+  (List.mem_filter.mp h).1
 
-theorem lookup_insert_self {β : Type} (m : List (Nat × β)) (k : Nat) (v w : β)
-    (h : lookup (insert m k v) k = some w) : w = v := by
-  have hm := lookup_mem _ _ _ h
-  rcases mem_insert hm with he | hmem
-  · exact (Prod.mk.inj he).2
-  · -- (k, w) was already in m: then `any` holds and the entry was rewritten
-    unfold insert at h
-    have ha : m.any (fun p => p.1 = k) = true := List.any_eq_true.mpr ⟨(k, w), hmem, by simp⟩
-    simp only [ha, if_true] at h
-    clear ha hm hmem
-    induction m with
-    | nil => simp [lookup] at h
-    | cons p m ih =>
-      rw [List.map_cons, lookup_cons] at h
-      by_cases hp : p.1 = k
-      · simp [hp] at h; exact h.symm
-      · simp only [hp, if_false] at h; exact ih h
+/-- `x` is an entry of some inner map of `m` -/
+def EntryIn (m : EpochMap) (x : Nat × Nat) : Prop := ∃ p ∈ m, x ∈ p.2
 
-/-- an entry found in the map after `store` is the stored one or was there before -/
-theorem store_mem {m : EpochMap} {ep hash d e : Nat} {es : Entries} {x : Nat × Nat}
-    (hl : lookup (store m ep hash d) e = some es) (hx : x ∈ es) :
-    x = (hash, d) ∨ ∃ es0, lookup m e = some es0 ∧ x ∈ es0 := by
-  unfold store at hl
-  by_cases hee : e = ep
-  · subst hee
-    cases hm : lookup m e with
+theorem entryIn_of_lookup {m : EpochMap} {e : Nat} {es : Entries} {x : Nat × Nat}
+    (hl : lookup m e = some es) (hx : x ∈ es) : EntryIn m x := ⟨(e, es), lookup_mem m e es hl, hx⟩
+
+theorem entryIn_store {m : EpochMap} {ep hash d : Nat} {x : Nat × Nat} (h : EntryIn (store m ep hash d) x) :
+    x = (hash, d) ∨ EntryIn m x := by
+  obtain ⟨p, hp, hx⟩ := h
+  unfold store at hp
+  cases hm : lookup m ep with
+  | none =>
+    simp only [hm] at hp
+    rcases mem_insert hp with h1 | h1
+    · subst h1; simp at hx; exact .inl hx
+    · exact .inr ⟨p, h1, hx⟩
+  | some es =>
+    simp only [hm] at hp
+    rcases mem_insert hp with h1 | h1
+    · subst h1
+      rcases mem_insert hx with h2 | h2
+      · exact .inl h2
+      · exact .inr (entryIn_of_lookup hm h2)
+    · exact .inr ⟨p, h1, hx⟩
+
+/-! ### Retrieve / RetrieveAndUpdate -/
+
+theorem retrieve_mem {st : St} (inv : C17.Inv genesis st.bs) {m : EpochMap} {e : Nat} {hdr : Blk} {c : Entries}
+    (hc : Consistent st hdr) (h : retrieve st m e hdr = .mem c) :
+    c ≠ [] ∧ ∃ es, lookup m e = some es ∧ ∀ x ∈ c, x ∈ es ∧ Anc st x.1 hdr := by
+  unfold retrieve at h
+  cases hl : lookup m e with
+  | none => simp [hl] at h
+  | some es =>
+    simp only [hl] at h
+    cases hf : findAnc st es (hdr.number + 1) hdr with
+    | found c' =>
+      simp only [hf, Res.ofFA, Res.mem.injEq] at h
+      subst h
+      have := findAnc_sound st inv es _ hdr c' hc hf
+      exact ⟨this.1, es, rfl, this.2⟩
+    | errHash => simp [hf, Res.ofFA] at h
+    | errParent => simp [hf, Res.ofFA] at h
+    | outOfFuel => simp [hf, Res.ofFA] at h
+
+theorem retrieve_errHash {st : St} (hz : getHeader st 0 = none) {m : EpochMap} {e : Nat} {hdr : Blk}
+    (h : retrieve st m e hdr = .errHash) : ∃ es, lookup m e = some es ∧ ∀ x ∈ es, ¬ Anc st x.1 hdr := by
+  unfold retrieve at h
+  cases hl : lookup m e with
+  | none => simp [hl] at h
+  | some es =>
+    simp only [hl] at h
+    cases hf : findAnc st es (hdr.number + 1) hdr with
+    | found c' => simp [hf, Res.ofFA] at h
+    | errHash => exact ⟨es, rfl, findAnc_complete st hz es _ hdr hf⟩
+    | errParent => simp [hf, Res.ofFA] at h
+    | outOfFuel => simp [hf, Res.ofFA] at h
+
+theorem retrieve_errEpoch {st : St} {m : EpochMap} {e : Nat} {hdr : Blk}
+    (h : retrieve st m e hdr = .errEpoch) : lookup m e = none := by
+  unfold retrieve at h
+  cases hl : lookup m e with
+  | none => rfl
+  | some es =>
+    simp only [hl] at h
+    cases hf : findAnc st es (hdr.number + 1) hdr <;> simp [hf, Res.ofFA] at h
+
+theorem retrieve_no_timeout {u : Univ} {st : St} (w : WF u st) (m : EpochMap) (e : Nat) {hdr : Blk}
+    (hok : HdrOK st hdr) : retrieve st m e hdr ≠ .timeout := by
+  unfold retrieve
+  cases hl : lookup m e with
+  | none => simp
+  | some es =>
+    simp only
+    have := findAnc_fuel st w es (hdr.number + 1) hdr hok (by omega)
+    cases hf : findAnc st es (hdr.number + 1) hdr with
+    | outOfFuel => exact absurd hf this
+    | found c' => simp [Res.ofFA]
+    | errHash => simp [Res.ofFA]
+    | errParent => simp [Res.ofFA]
+
+theorem retrieve_not_gen (st : St) (m : EpochMap) (e : Nat) (hdr : Blk) : retrieve st m e hdr ≠ .gen := by
+  unfold retrieve
+  cases lookup m e with
+  | none => simp
+  | some es => simp only; cases findAnc st es (hdr.number + 1) hdr <;> simp [Res.ofFA]
+
+theorem retrieve_not_db (st : St) (m : EpochMap) (e : Nat) (hdr : Blk) (d : Nat) :
+    retrieve st m e hdr ≠ .db d := by
+  unfold retrieve
+  cases lookup m e with
+  | none => simp
+  | some es => simp only; cases findAnc st es (hdr.number + 1) hdr <;> simp [Res.ofFA]
+
+/-- what `RetrieveAndUpdate` answers is what `Retrieve` answers -/
+theorem retrieveAndUpdate_res (st : St) (m : EpochMap) (old new : Nat) (hdr : Blk) :
+    (retrieveAndUpdate st m old new hdr).2 = retrieve st m old hdr ∨
+      ((retrieveAndUpdate st m old new hdr).2 = .errHash ∧ retrieve st m old hdr = .mem []) := by
+  unfold retrieveAndUpdate retrieve
+  cases lookup m old with
+  | none => exact .inl rfl
+  | some es =>
+    simp only
+    cases hf : findAnc st es (hdr.number + 1) hdr with
+    | found c => cases c with
+      | nil => exact .inr ⟨rfl, rfl⟩
+      | cons x r => exact .inl rfl
+    | errHash => exact .inl rfl
+    | errParent => exact .inl rfl
+    | outOfFuel => exact .inl rfl
+
+/-- every entry of the map after `RetrieveAndUpdate` was an entry before: entries only move between epochs -/
+theorem retrieveAndUpdate_entries (st : St) (m : EpochMap) (old new : Nat) (hdr : Blk) (x : Nat × Nat)
+    (h : EntryIn (retrieveAndUpdate st m old new hdr).1 x) : EntryIn m x := by
+  unfold retrieveAndUpdate at h
+  cases hl : lookup m old with
+  | none => simpa [hl] using h
+  | some es =>
+    simp only [hl] at h
+    cases hf : findAnc st es (hdr.number + 1) hdr with
+    | errHash => simpa [hf] using h
+    | errParent => simpa [hf] using h
+    | outOfFuel => simpa [hf] using h
+    | found c =>
+      cases c with
+      | nil => simpa [hf] using h
+      | cons y r =>
+        simp only [hf] at h
+        have hy : y ∈ es := by
+          -- `found` lists a filter of `es` at some level: extract membership from the definition
+          have : ∀ (f : Nat) (cur : Blk) (c : Entries), findAnc st es f cur = .found c → ∀ z ∈ c, z ∈ es := by
+            intro f
+            induction f with
+            | zero => intro cur c hc; simp [findAnc] at hc
+            | succ k ih =>
+              intro cur c hc z hz
+              unfold findAnc at hc
+              simp only at hc
+              by_cases hne : es.filter (hit st cur.hash) ≠ []
+              · rw [if_pos hne] at hc; cases hc; exact (List.mem_filter.mp hz).1
+              · simp only [hne, if_false] at hc
+                by_cases hp0 : cur.parent = 0
+                · simp [hp0] at hc
+                · simp only [hp0, if_false] at hc
+                  cases hp : getHeader st cur.parent with
+                  | none => simp [hp] at hc
+                  | some p => simp only [hp] at hc; exact ih p c hc z hz
+          exact this _ _ _ hf y (List.mem_cons_self ..)
+        obtain ⟨p, hp, hx⟩ := h
+        rcases mem_insert hp with h1 | h1
+        · subst h1
+          rcases mem_insert hx with h2 | h2
+          · have : x = y := by rw [h2]
+            rw [this]; exact entryIn_of_lookup hl hy
+          · -- an entry of `hashes`, the inner map of `new` after the deletion
+            cases hn : lookup (insert m old (erase es y.1)) new with
+            | none => simp [hn] at h2
+            | some hs =>
+              simp only [hn, Option.getD_some] at h2
+              have := lookup_mem _ _ _ hn
+              rcases mem_insert this with h3 | h3
+              · have : hs = erase es y.1 := (Prod.mk.inj h3).2
+                rw [this] at h2
+                exact entryIn_of_lookup hl (mem_erase h2)
+              · exact ⟨(new, hs), h3, h2⟩
+        · rcases mem_insert h1 with h3 | h3
+          · subst h3; exact entryIn_of_lookup hl (mem_erase hx)
+          · exact ⟨p, h3, hx⟩
+
+/-! ### property theorems about one state -/
+
+/-- a definition for epoch `e` that `hdr` may use: persisted, or announced in memory on `hdr`'s own fork -/
+def Visible (st : St) (m : EpochMap) (db : List (Nat × Nat)) (hdr : Blk) (e : Nat) : Prop :=
+  (lookup db e).isSome ∨ ∃ es x, lookup m e = some es ∧ x ∈ es ∧ Anc st x.1 hdr
+
+/-- **own fork**: whatever in-memory epoch data `GetEpochDataRaw` can return (for any Go map order) was
+    announced for that epoch by the queried block itself or by one of its ancestors — in any state of any
+    history, finalisations included (`WF` holds in all of them). -/
+theorem C26_own_fork {u : Univ} {st : St} (w : WF u st) {hdr : Blk} (hc : Consistent st hdr) {e : Nat} {c : Entries}
+    (h : getEpochDataRaw st e hdr = .mem c) :
+    c ≠ [] ∧ ∃ es, lookup st.nextEpoch e = some es ∧ ∀ x ∈ c, x ∈ es ∧ Anc st x.1 hdr := by
+  unfold getEpochDataRaw at h
+  by_cases he : e = 0
+  · simp [he] at h
+  · simp only [he, if_false] at h
+    cases hd : lookup st.dbEpoch e with
+    | some d => simp [hd] at h
+    | none => simp only [hd] at h; exact retrieve_mem w.inv hc h
+
+/-- **no foreign data**: the lookup fails with `errHashNotInMemory` exactly because nothing was announced for
+    the epoch on the block's own fork — another fork's announcement is never handed out instead. -/
+theorem C26_none_on_fork {u : Univ} {st : St} (w : WF u st) {hdr : Blk} {e : Nat}
+    (h : getEpochDataRaw st e hdr = .errHash) :
+    ∃ es, lookup st.nextEpoch e = some es ∧ ∀ x ∈ es, ¬ Anc st x.1 hdr := by
+  unfold getEpochDataRaw at h
+  by_cases he : e = 0
+  · simp [he] at h
+  · simp only [he, if_false] at h
+    cases hd : lookup st.dbEpoch e with
+    | some d => simp [hd] at h
+    | none => simp only [hd] at h; exact retrieve_errHash w.zero h
+
+/-- **fails promptly**: the `findAncestor` loop ends within `number + 1` iterations. -/
+theorem C26_terminates {u : Univ} {st : St} (w : WF u st) (entries : Entries) {hdr : Blk} (hok : HdrOK st hdr) :
+    ∃ fuel, fuel ≤ hdr.number + 1 ∧ findAnc st entries fuel hdr ≠ .outOfFuel :=
+  ⟨hdr.number + 1, Nat.le_refl _, findAnc_fuel st w entries _ hdr hok (by omega)⟩
+
+/-- once the loop has ended, more iterations allowed change nothing: the fuelled model is the Go loop -/
+theorem C26_fuel_stable (st : St) (entries : Entries) (f f' : Nat) (hdr : Blk)
+    (h : findAnc st entries f hdr ≠ .outOfFuel) (hle : f ≤ f') :
+    findAnc st entries f' hdr = findAnc st entries f hdr := findAnc_mono st entries f f' hdr h hle
+
+theorem getConfigData_no_timeout {u : Univ} {st : St} (w : WF u st) {hdr : Blk} (hok : HdrOK st hdr) :
+    ∀ e, getConfigData st hdr e ≠ .timeout
+  | 0 => by simp [getConfigData]
+  | e + 1 => by
+    unfold getConfigData
+    cases hd : lookup st.dbConfig (e + 1) with
+    | some d => simp
     | none =>
-      simp only [hm] at hl
-      have := lookup_insert_self _ _ _ _ hl
-      subst this
-      simp at hx; exact .inl hx
-    | some es0 =>
-      simp only [hm] at hl
-      have := lookup_insert_self _ _ _ _ hl
-      subst this
-      rcases mem_insert hx with h | h
-      · exact .inl h
-      · exact .inr ⟨es0, rfl, h⟩
-  · cases hm : lookup m ep with
+      simp only
+      have ht := retrieve_no_timeout w st.nextConfig (e + 1) hok
+      cases hr : retrieve st st.nextConfig (e + 1) hdr with
+      | timeout => exact absurd hr ht
+      | errEpoch => exact getConfigData_no_timeout w hok e
+      | errHash => exact getConfigData_no_timeout w hok e
+      | gen => simp
+      | db d => simp
+      | mem c => simp
+      | errParent => simp
+
+/-- **never hangs**: neither lookup is still running after `number + 1` iterations -/
+theorem C26_never_hangs {u : Univ} {st : St} (w : WF u st) {hdr : Blk} (hok : HdrOK st hdr) (e : Nat) :
+    getEpochDataRaw st e hdr ≠ .timeout ∧ getConfigData st hdr e ≠ .timeout := by
+  refine ⟨?_, getConfigData_no_timeout w hok e⟩
+  unfold getEpochDataRaw
+  by_cases he : e = 0
+  · simp [he]
+  · simp only [he, if_false]
+    cases hd : lookup st.dbEpoch e with
+    | some d => simp
+    | none => exact retrieve_no_timeout w st.nextEpoch e hok
+
+/-- what `GetConfigData(e, hdr)` must be: the definition of the latest epoch `e' ≤ e` that has one visible to
+    `hdr` (persisted first, else announced on `hdr`'s own fork), the genesis configuration when there is none;
+    the only error left is a broken lineage (`GetHeader` of some ancestor's parent fails: a pruned block). -/
+def CfgSpec (st : St) (hdr : Blk) (e : Nat) : Res → Prop
+  | .gen => ∀ e', 1 ≤ e' → e' ≤ e → ¬ Visible st st.nextConfig st.dbConfig hdr e'
+  | .db d => ∃ e', 1 ≤ e' ∧ e' ≤ e ∧ lookup st.dbConfig e' = some d ∧
+      ∀ e'', e' < e'' → e'' ≤ e → ¬ Visible st st.nextConfig st.dbConfig hdr e''
+  | .mem c => c ≠ [] ∧ ∃ e' es, 1 ≤ e' ∧ e' ≤ e ∧ lookup st.dbConfig e' = none ∧
+      lookup st.nextConfig e' = some es ∧ (∀ x ∈ c, x ∈ es ∧ Anc st x.1 hdr) ∧
+      ∀ e'', e' < e'' → e'' ≤ e → ¬ Visible st st.nextConfig st.dbConfig hdr e''
+  | .errParent => True
+  | .errEpoch => False
+  | .errHash => False
+  | .timeout => False
+
+theorem CfgSpec_lift {st : St} {hdr : Blk} {e : Nat} (hnv : ¬ Visible st st.nextConfig st.dbConfig hdr (e + 1))
+    {r : Res} (h : CfgSpec st hdr e r) : CfgSpec st hdr (e + 1) r := by
+  have key : ∀ e' e'', e' ≤ e → e' < e'' → e'' ≤ e + 1 →
+      (∀ k, e' < k → k ≤ e → ¬ Visible st st.nextConfig st.dbConfig hdr k) →
+      ¬ Visible st st.nextConfig st.dbConfig hdr e'' := by
+    intro e' e'' _ h2 h3 hall
+    by_cases hk : e'' = e + 1
+    · rw [hk]; exact hnv
+    · exact hall e'' h2 (by omega)
+  cases r with
+  | gen =>
+    intro e' h1 h2
+    by_cases hk : e' = e + 1
+    · rw [hk]; exact hnv
+    · exact h e' h1 (by omega)
+  | db d =>
+    obtain ⟨e', h1, h2, h3, h4⟩ := h
+    exact ⟨e', h1, by omega, h3, fun e'' a b => key e' e'' h2 a b h4⟩
+  | mem c =>
+    obtain ⟨hne, e', es, h1, h2, h3, h4, h5, h6⟩ := h
+    exact ⟨hne, e', es, h1, by omega, h3, h4, h5, fun e'' a b => key e' e'' h2 a b h6⟩
+  | errParent => exact h
+  | errEpoch => exact h
+  | errHash => exact h
+  | timeout => exact h
+
+/-- **latest earlier configuration** -/
+theorem C26_config_latest_earlier {u : Univ} {st : St} (w : WF u st) {hdr : Blk} (hc : Consistent st hdr)
+    (hok : HdrOK st hdr) : ∀ e, CfgSpec st hdr e (getConfigData st hdr e)
+  | 0 => by
+    simp only [getConfigData, CfgSpec]
+    intro e' h1 h2; omega
+  | e + 1 => by
+    have ih := C26_config_latest_earlier w hc hok e
+    unfold getConfigData
+    cases hd : lookup st.dbConfig (e + 1) with
+    | some d =>
+      exact ⟨e + 1, by omega, Nat.le_refl _, hd, fun e'' a b => by omega⟩
     | none =>
-      simp only [hm] at hl
-      rw [lookup_insert_ne _ _ _ _ hee] at hl
-      exact .inr ⟨es, hl, hx⟩
-    | some es0 =>
-      simp only [hm] at hl
-      rw [lookup_insert_ne _ _ _ _ hee] at hl
-      exact .inr ⟨es, hl, hx⟩
+      simp only
+      cases hr : retrieve st st.nextConfig (e + 1) hdr with
+      | errEpoch =>
+        refine CfgSpec_lift ?_ ih
+        rintro (hv | ⟨es, x, hl, _, _⟩)
+        · simp [hd] at hv
+        · rw [retrieve_errEpoch hr] at hl; cases hl
+      | errHash =>
+        refine CfgSpec_lift ?_ ih
+        obtain ⟨es, hl, hno⟩ := retrieve_errHash w.zero hr
+        rintro (hv | ⟨es', x, hl', hx, ha⟩)
+        · simp [hd] at hv
+        · rw [hl] at hl'; cases hl'; exact hno x hx ha
+      | mem c =>
+        obtain ⟨hne, es, hl, hall⟩ := retrieve_mem w.inv hc hr
+        exact ⟨hne, e + 1, es, by omega, Nat.le_refl _, hd, hl, hall, fun e'' a b => by omega⟩
+      | errParent => trivial
+      | timeout => exact absurd hr (retrieve_no_timeout w _ _ hok)
+      | gen => exact absurd hr (retrieve_not_gen _ _ _ _)
+      | db d => exact absurd hr (retrieve_not_db _ _ _ _ _)
 
-/-- every entry of the epoch-data map was put there by a `HandleBABEDigest` call for the block it names -/
-def SrcE (ops : List Op) (st : St) : Prop :=
-  ∀ e es x, lookup st.nextEpoch e = some es → x ∈ es → ∃ h, Op.ann h x.2 ∈ ops ∧ h.hash = x.1
+/-- **skipped epochs, own fork**: in-memory epoch data handed out for a skipped epoch
+    (`GetSkippedEpochDataRaw`, also used with the block being imported) was announced on the header's fork -/
+theorem C26_skipped_own_fork {u : Univ} {st : St} (w : WF u st) {hdr : Blk} (hc : Consistent st hdr)
+    {s cur : Nat} {c : Entries} (h : (getSkippedEpochData st s cur hdr).2 = .mem c) :
+    c ≠ [] ∧ ∃ es, lookup st.nextEpoch s = some es ∧ ∀ x ∈ c, x ∈ es ∧ Anc st x.1 hdr := by
+  unfold getSkippedEpochData at h
+  by_cases hs : s = 0
+  · simp [hs] at h
+  · simp only [hs, if_false] at h
+    cases hm : dbMove st.dbEpoch s cur with
+    | some p => simp [hm] at h
+    | none =>
+      simp only [hm] at h
+      rcases retrieveAndUpdate_res st st.nextEpoch s cur hdr with hr | ⟨hr, _⟩
+      · rw [hr] at h; exact retrieve_mem w.inv hc h
+      · rw [hr] at h; cases h
 
-def SrcC (ops : List Op) (st : St) : Prop :=
-  ∀ e es x, lookup st.nextConfig e = some es → x ∈ es → ∃ h, Op.cfg h x.2 ∈ ops ∧ h.hash = x.1
+/-- the same for `GetSkippedConfigData`, which falls back to the latest earlier configuration -/
+theorem C26_skipped_config_own_fork {u : Univ} {st : St} (w : WF u st) {hdr : Blk} (hc : Consistent st hdr)
+    (hok : HdrOK st hdr) {s cur : Nat} {c : Entries} (h : (getSkippedConfig st s cur hdr).2 = .mem c) :
+    c ≠ [] ∧ ∀ x ∈ c, Anc st x.1 hdr ∧ EntryIn st.nextConfig x := by
+  unfold getSkippedConfig at h
+  by_cases hs : s = 0
+  · simp [hs] at h
+  · simp only [hs, if_false] at h
+    cases hm : dbMove st.dbConfig s cur with
+    | some p => simp [hm] at h
+    | none =>
+      simp only [hm] at h
+      -- the answer of RetrieveAndUpdate, then possibly the fall-back
+      have hru := retrieveAndUpdate_res st st.nextConfig s cur hdr
+      have direct : retrieve st st.nextConfig s hdr = .mem c →
+          c ≠ [] ∧ ∀ x ∈ c, Anc st x.1 hdr ∧ EntryIn st.nextConfig x := by
+        intro hr
+        obtain ⟨hne, es, hl, hall⟩ := retrieve_mem w.inv hc hr
+        exact ⟨hne, fun x hx => ⟨(hall x hx).2, entryIn_of_lookup hl (hall x hx).1⟩⟩
+      -- in the fall-back cases the map is unchanged
+      have unchanged : ∀ r, (retrieveAndUpdate st st.nextConfig s cur hdr).2 = r → (r = .errEpoch ∨ r = .errHash) →
+          (retrieveAndUpdate st st.nextConfig s cur hdr).1 = st.nextConfig := by
+        intro r hr hcase
+        unfold retrieveAndUpdate at hr ⊢
+        cases hl : lookup st.nextConfig s with
+        | none => rfl
+        | some es =>
+          simp only [hl] at hr ⊢
+          cases hf : findAnc st es (hdr.number + 1) hdr with
+          | found cc =>
+            cases cc with
+            | nil => rfl
+            | cons y rr =>
+              simp only [hf] at hr
+              rcases hcase with hcase | hcase <;> rw [hcase] at hr <;> cases hr
+          | errHash => rfl
+          | errParent => rfl
+          | outOfFuel => rfl
+      have fallback : ∀ r, (retrieveAndUpdate st st.nextConfig s cur hdr).2 = r → (r = .errEpoch ∨ r = .errHash) →
+          getConfigData { st with nextConfig := (retrieveAndUpdate st st.nextConfig s cur hdr).1 } hdr (s - 1) = .mem c →
+          c ≠ [] ∧ ∀ x ∈ c, Anc st x.1 hdr ∧ EntryIn st.nextConfig x := by
+        intro r hr hcase hg
+        rw [unchanged r hr hcase] at hg
+        have := C26_config_latest_earlier w hc hok (s - 1)
+        have hst : ({ st with nextConfig := st.nextConfig } : St) = st := rfl
+        rw [hst] at hg
+        rw [hg] at this
+        obtain ⟨hne, e', es, _, _, _, hl, hall, _⟩ := this
+        exact ⟨hne, fun x hx => ⟨(hall x hx).2, entryIn_of_lookup hl (hall x hx).1⟩⟩
+      cases hres : (retrieveAndUpdate st st.nextConfig s cur hdr).2 with
+      | errEpoch =>
+        have : getConfigData { st with nextConfig := (retrieveAndUpdate st st.nextConfig s cur hdr).1 } hdr (s - 1) = .mem c := by
+          simpa [hres] using h
+        exact fallback _ hres (.inl rfl) this
+      | errHash =>
+        have : getConfigData { st with nextConfig := (retrieveAndUpdate st st.nextConfig s cur hdr).1 } hdr (s - 1) = .mem c := by
+          simpa [hres] using h
+        exact fallback _ hres (.inr rfl) this
+      | mem c' =>
+        have hcc : c' = c := by simpa [hres] using h
+        subst hcc
+        rcases hru with hr | ⟨hr, _⟩
+        · exact direct (hr ▸ hres)
+        · rw [hres] at hr; cases hr
+      | gen => simp [hres] at h
+      | db d => simp [hres] at h
+      | errParent => simp [hres] at h
+      | timeout => simp [hres] at h
 
-theorem Src_step {pre : List Op} {st : St} (o : Op) (h : SrcE pre st ∧ SrcC pre st) :
-    SrcE (pre ++ [o]) (step st o).1 ∧ SrcC (pre ++ [o]) (step st o).1 := by
-  have weakE : ∀ st', st'.nextEpoch = st.nextEpoch → SrcE (pre ++ [o]) st' := by
-    intro st' heq e es x hl hx
-    rw [heq] at hl
-    obtain ⟨hh, h1, h2⟩ := h.1 e es x hl hx
-    exact ⟨hh, by simp [h1], h2⟩
-  have weakC : ∀ st', st'.nextConfig = st.nextConfig → SrcC (pre ++ [o]) st' := by
-    intro st' heq e es x hl hx
-    rw [heq] at hl
-    obtain ⟨hh, h1, h2⟩ := h.2 e es x hl hx
-    exact ⟨hh, by simp [h1], h2⟩
+/-! ### all histories: the invariant `WF` -/
+
+/-- assumptions on a history: imported headers are named by their hash in the universe, none hashes to
+    `common.EmptyHash`, genesis is not imported a second time -/
+def OpOK (u : Univ) : Op → Prop
+  | .add h => (u.blk h).hash = h ∧ h ≠ 0 ∧ h ≠ genesis.hash
+  | _ => True
+
+theorem WF_congr {u : Univ} {st st' : St} (h : st'.bs = st.bs) (w : WF u st) : WF u st' :=
+  ⟨h ▸ w.inv, h ▸ w.db, w.ugen⟩
+
+theorem WF_init (u : Univ) (hu : u.blk genesis.hash = genesis) (l : Nat) : WF u (St.init l) :=
+  ⟨C17.Inv_init genesis, DbInv_init u.blk genesis hu (by decide), hu⟩
+
+theorem finalizeEpoch_bs (u : Univ) (st : St) (hdr : Blk) : (finalizeEpoch u st hdr).1.bs = st.bs := by
+  unfold finalizeEpoch
+  split
+  · rfl
+  · split
+    · rfl
+    · simp only []
+      repeat' split
+      all_goals rfl
+
+theorem finalizeConfig_bs (u : Univ) (st : St) (hdr : Blk) : (finalizeConfig u st hdr).1.bs = st.bs := by
+  unfold finalizeConfig
+  split
+  · rfl
+  · split
+    · rfl
+    · simp only []
+      repeat' split
+      all_goals rfl
+
+theorem getSkippedEpochData_bs (st : St) (s c : Nat) (hdr : Blk) : (getSkippedEpochData st s c hdr).1.bs = st.bs := by
+  unfold getSkippedEpochData
+  repeat' split
+  all_goals rfl
+
+theorem getSkippedConfig_bs (st : St) (s c : Nat) (hdr : Blk) : (getSkippedConfig st s c hdr).1.bs = st.bs := by
+  unfold getSkippedConfig
+  repeat' split
+  all_goals rfl
+
+theorem updateSkippedEpoch_bs (st : St) (s c : Nat) (hdr : Blk) : (updateSkippedEpoch st s c hdr).1.bs = st.bs := by
+  unfold updateSkippedEpoch
+  split <;> rfl
+
+theorem updateSkippedConfig_bs (st : St) (s c : Nat) (hdr : Blk) : (updateSkippedConfig st s c hdr).1.bs = st.bs := by
+  unfold updateSkippedConfig
+  split <;> rfl
+
+theorem updateSkipped_bs (st : St) (s c : Nat) (hdr : Blk) : (updateSkipped st s c hdr).1.bs = st.bs := by
+  unfold updateSkipped
+  split
+  · rfl
+  · split
+    · rw [updateSkippedConfig_bs, updateSkippedEpoch_bs]
+    · exact updateSkippedEpoch_bs _ _ _ _
+
+/-- the block state after one operation -/
+theorem step_bs (u : Univ) (st : St) (o : Op) :
+    (step u st o).1.bs = match o with
+      | .add h => (C17.addBlock st.bs (u.blk h)).1
+      | .fin h r => (C17.setFinalised genesis.hash st.bs h r 0).1
+      | _ => st.bs := by
   cases o with
-  | add hd =>
+  | add h => rfl
+  | ann h d => simp only [step]; split <;> rfl
+  | cfg h d => simp only [step]; split <;> rfl
+  | dbe e d => rfl
+  | dbc e d => rfl
+  | restart => rfl
+  | fin h r =>
     simp only [step]
-    cases ha : addBlock st hd with
-    | none => exact ⟨weakE _ rfl, weakC _ rfl⟩
-    | some st' =>
-      unfold addBlock at ha
-      cases hp : getHeader st hd.parent with
-      | none => simp [hp] at ha
-      | some p =>
-        simp only [hp] at ha
-        by_cases c1 : (getHeader st hd.hash).isSome = true
-        · simp [c1] at ha
-        · by_cases c2 : p.number + 1 ≠ hd.number
-          · simp [c1, c2] at ha
-          · simp only [c1, c2, if_false, Option.some.injEq, Bool.false_eq_true] at ha
-            subst ha
-            exact ⟨weakE _ rfl, weakC _ rfl⟩
-  | ann hd d =>
+    split
+    · rw [finalizeConfig_bs, finalizeEpoch_bs]
+    · rfl
+  | skipE h s c => simp only [step]; split <;> first | rfl | exact getSkippedEpochData_bs _ _ _ _
+  | skipC h s c => simp only [step]; split <;> first | rfl | exact getSkippedConfig_bs _ _ _ _
+  | upd h s c => simp only [step]; split <;> first | rfl | exact updateSkipped_bs _ _ _ _
+
+theorem WF_step {u : Univ} {st : St} (w : WF u st) (o : Op) (ho : OpOK u o) : WF u (step u st o).1 := by
+  have hb := step_bs u st o
+  cases o with
+  | add h =>
+    simp only at hb
+    exact ⟨hb ▸ C17.Inv_add w.inv _ (by rw [ho.1]; exact ho.2.2),
+      hb ▸ DbInv_add w.inv w.db h ho.1 ho.2.1, w.ugen⟩
+  | fin h r =>
+    simp only at hb
+    exact ⟨hb ▸ C17.Inv_fin w.inv h r 0, hb ▸ DbInv_fin w.inv w.db h r 0, w.ugen⟩
+  | ann h d => exact WF_congr hb w
+  | cfg h d => exact WF_congr hb w
+  | dbe e d => exact WF_congr hb w
+  | dbc e d => exact WF_congr hb w
+  | restart => exact WF_congr hb w
+  | skipE h s c => exact WF_congr hb w
+  | skipC h s c => exact WF_congr hb w
+  | upd h s c => exact WF_congr hb w
+
+theorem foldl_inv {σ α : Type} (f : σ → α → σ) (P : List α → σ → Prop)
+    (hstep : ∀ pre s o, P pre s → P (pre ++ [o]) (f s o)) :
+    ∀ (ops pre : List α) (s : σ), P pre s → P (pre ++ ops) (ops.foldl f s)
+  | [], pre, s, h => by simpa using h
+  | o :: ops, pre, s, h => by
+    have := foldl_inv f P hstep ops (pre ++ [o]) (f s o) (hstep pre s o h)
+    simpa using this
+
+/-- **reachable states are well formed**, for every history — imports, announcements, finalisations (with
+    pruning), skipped-epoch updates, restarts -/
+theorem C26_wf_reachable (u : Univ) (hu : u.blk genesis.hash = genesis) (l : Nat) (ops : List Op)
+    (hops : ∀ o ∈ ops, OpOK u o) : WF u (run u l ops) := by
+  have := foldl_inv (fun s o => (step u s o).1) (fun pre s => (∀ o ∈ pre, OpOK u o) → WF u s)
+    (fun pre s o ih hpre => WF_step (ih (fun o' ho' => hpre o' (by simp [ho']))) o (hpre o (by simp)))
+    ops [] (St.init l) (fun _ => WF_init u hu l)
+  exact this (by simpa using hops)
+
+/-! ### all histories: where map entries and persisted definitions come from -/
+
+/-- a persisted definition `d` was stored explicitly (`SetEpochDataRaw`/`StoreConfigData`) or copied by
+    `Finalize…` from the announcement of a block that is in the header table (a finalised block) -/
+def DOK (ann : Nat → Nat → Op) (dbop : Nat → Nat → Op) (ops : List Op) (bs : C17.St) (d : Nat) : Prop :=
+  (∃ e, dbop e d ∈ ops) ∨ ∃ h, ann h d ∈ ops ∧ (findB bs.dbHdr h).isSome
+
+structure Src (ops : List Op) (st : St) : Prop where
+  e : ∀ x, EntryIn st.nextEpoch x ∨ EntryIn st.diskEpoch x → Op.ann x.1 x.2 ∈ ops
+  c : ∀ x, EntryIn st.nextConfig x ∨ EntryIn st.diskConfig x → Op.cfg x.1 x.2 ∈ ops
+  de : ∀ p ∈ st.dbEpoch, DOK .ann .dbe ops st.bs p.2
+  dc : ∀ p ∈ st.dbConfig, DOK .cfg .dbc ops st.bs p.2
+
+/-- `st'` only rearranges what `st` holds: same block state, entries and definitions taken from `st` -/
+structure Sub (st st' : St) : Prop where
+  bs : st'.bs = st.bs
+  ne : ∀ x, EntryIn st'.nextEpoch x → EntryIn st.nextEpoch x
+  nc : ∀ x, EntryIn st'.nextConfig x → EntryIn st.nextConfig x
+  dke : st'.diskEpoch = st.diskEpoch
+  dkc : st'.diskConfig = st.diskConfig
+  de : ∀ p ∈ st'.dbEpoch, ∃ q ∈ st.dbEpoch, q.2 = p.2
+  dc : ∀ p ∈ st'.dbConfig, ∃ q ∈ st.dbConfig, q.2 = p.2
+
+theorem Sub.refl (st : St) : Sub st st :=
+  ⟨rfl, fun _ h => h, fun _ h => h, rfl, rfl, fun p hp => ⟨p, hp, rfl⟩, fun p hp => ⟨p, hp, rfl⟩⟩
+
+theorem Sub.trans {a b c : St} (h1 : Sub a b) (h2 : Sub b c) : Sub a c :=
+  ⟨h2.bs.trans h1.bs, fun x h => h1.ne x (h2.ne x h), fun x h => h1.nc x (h2.nc x h), h2.dke.trans h1.dke,
+    h2.dkc.trans h1.dkc,
+    fun p hp => by obtain ⟨q, hq, e⟩ := h2.de p hp; obtain ⟨r, hr, e'⟩ := h1.de q hq; exact ⟨r, hr, e'.trans e⟩,
+    fun p hp => by obtain ⟨q, hq, e⟩ := h2.dc p hp; obtain ⟨r, hr, e'⟩ := h1.dc q hq; exact ⟨r, hr, e'.trans e⟩⟩
+
+theorem dbMove_sub {db db' : List (Nat × Nat)} {old new d : Nat} (h : dbMove db old new = some (db', d)) :
+    ∀ p ∈ db', ∃ q ∈ db, q.2 = p.2 := by
+  unfold dbMove at h
+  cases hl : lookup db old with
+  | none => simp [hl] at h
+  | some v =>
+    simp only [hl, Option.some.injEq, Prod.mk.injEq] at h
+    obtain ⟨h1, _⟩ := h
+    subst h1
+    intro p hp
+    rcases mem_insert hp with h2 | h2
+    · exact ⟨(old, v), lookup_mem _ _ _ hl, by rw [h2]⟩
+    · exact ⟨p, mem_erase h2, rfl⟩
+
+theorem getSkippedEpochData_sub (st : St) (s c : Nat) (hdr : Blk) : Sub st (getSkippedEpochData st s c hdr).1 := by
+  unfold getSkippedEpochData
+  split
+  · exact Sub.refl st
+  · split
+    · rename_i db' d hm
+      exact ⟨rfl, fun _ h => h, fun _ h => h, rfl, rfl, dbMove_sub hm, fun p hp => ⟨p, hp, rfl⟩⟩
+    · exact ⟨rfl, fun x h => retrieveAndUpdate_entries st _ _ _ _ x h, fun _ h => h, rfl, rfl,
+        fun p hp => ⟨p, hp, rfl⟩, fun p hp => ⟨p, hp, rfl⟩⟩
+
+theorem getSkippedConfig_sub (st : St) (s c : Nat) (hdr : Blk) : Sub st (getSkippedConfig st s c hdr).1 := by
+  unfold getSkippedConfig
+  split
+  · exact Sub.refl st
+  · split
+    · rename_i db' d hm
+      exact ⟨rfl, fun _ h => h, fun _ h => h, rfl, rfl, fun p hp => ⟨p, hp, rfl⟩, dbMove_sub hm⟩
+    · have key : Sub st { st with nextConfig := (retrieveAndUpdate st st.nextConfig s c hdr).1 } :=
+        ⟨rfl, fun _ h => h, fun x h => retrieveAndUpdate_entries st _ _ _ _ x h, rfl, rfl,
+          fun p hp => ⟨p, hp, rfl⟩, fun p hp => ⟨p, hp, rfl⟩⟩
+      simp only []
+      split <;> exact key
+
+theorem updateSkippedEpoch_sub (st : St) (s c : Nat) (hdr : Blk) : Sub st (updateSkippedEpoch st s c hdr).1 := by
+  unfold updateSkippedEpoch
+  split
+  · rename_i p hm
+    exact ⟨rfl, fun _ h => h, fun _ h => h, rfl, rfl, dbMove_sub (d := p.2) (by rw [hm]), fun p hp => ⟨p, hp, rfl⟩⟩
+  · exact ⟨rfl, fun x h => retrieveAndUpdate_entries st _ _ _ _ x h, fun _ h => h, rfl, rfl,
+      fun p hp => ⟨p, hp, rfl⟩, fun p hp => ⟨p, hp, rfl⟩⟩
+
+theorem updateSkippedConfig_sub (st : St) (s c : Nat) (hdr : Blk) : Sub st (updateSkippedConfig st s c hdr).1 := by
+  unfold updateSkippedConfig
+  split
+  · rename_i p hm
+    exact ⟨rfl, fun _ h => h, fun _ h => h, rfl, rfl, fun p hp => ⟨p, hp, rfl⟩, dbMove_sub (d := p.2) (by rw [hm])⟩
+  · exact ⟨rfl, fun _ h => h, fun x h => retrieveAndUpdate_entries st _ _ _ _ x h, rfl, rfl,
+      fun p hp => ⟨p, hp, rfl⟩, fun p hp => ⟨p, hp, rfl⟩⟩
+
+theorem updateSkipped_sub (st : St) (s c : Nat) (hdr : Blk) : Sub st (updateSkipped st s c hdr).1 := by
+  unfold updateSkipped
+  split
+  · exact Sub.refl st
+  · split
+    · exact (updateSkippedEpoch_sub st s c hdr).trans (updateSkippedConfig_sub _ s c hdr)
+    · exact updateSkippedEpoch_sub st s c hdr
+
+theorem DOK_mono {ann dbop : Nat → Nat → Op} {ops : List Op} {bs bs' : C17.St} {d : Nat} (o : Op)
+    (hm : ∀ h, (findB bs.dbHdr h).isSome → (findB bs'.dbHdr h).isSome) (h : DOK ann dbop ops bs d) :
+    DOK ann dbop (ops ++ [o]) bs' d := by
+  rcases h with ⟨e, he⟩ | ⟨x, hx, hs⟩
+  · exact .inl ⟨e, by simp [he]⟩
+  · exact .inr ⟨x, by simp [hx], hm x hs⟩
+
+theorem Src_sub {ops : List Op} {st st' : St} (o : Op) (hs : Sub st st') (h : Src ops st) : Src (ops ++ [o]) st' where
+  e := by
+    intro x hx
+    have : Op.ann x.1 x.2 ∈ ops := by
+      rcases hx with hx | hx
+      · exact h.e x (.inl (hs.ne x hx))
+      · rw [hs.dke] at hx; exact h.e x (.inr hx)
+    simp [this]
+  c := by
+    intro x hx
+    have : Op.cfg x.1 x.2 ∈ ops := by
+      rcases hx with hx | hx
+      · exact h.c x (.inl (hs.nc x hx))
+      · rw [hs.dkc] at hx; exact h.c x (.inr hx)
+    simp [this]
+  de := by
+    intro p hp
+    obtain ⟨q, hq, e⟩ := hs.de p hp
+    rw [← e]
+    exact DOK_mono o (by rw [hs.bs]; exact fun _ h => h) (h.de q hq)
+  dc := by
+    intro p hp
+    obtain ⟨q, hq, e⟩ := hs.dc p hp
+    rw [← e]
+    exact DOK_mono o (by rw [hs.bs]; exact fun _ h => h) (h.dc q hq)
+
+/-- the header table only grows -/
+theorem dbHdr_mono_add (bs : C17.St) (b : Blk) (h : Nat) (hs : (findB bs.dbHdr h).isSome) :
+    (findB (C17.addBlock bs b).1.dbHdr h).isSome := by
+  rcases C17.addBlock_cases bs b with he | ⟨_, _, _, _, heq⟩
+  · rw [he]; exact hs
+  · rw [heq]; exact hs
+
+theorem dbHdr_mono_fin {bs : C17.St} (inv : C17.Inv genesis bs) (t r s h : Nat) (hs : (findB bs.dbHdr h).isSome) :
+    (findB (C17.setFinalised genesis.hash bs t r s).1.dbHdr h).isSome := by
+  rcases C17.setFinalised_cases inv t r s with ⟨h1, _⟩ | ⟨_, _, h1⟩ | ⟨_, _, rb, hn, rest, m⟩
+  · rw [h1]; exact hs
+  · rw [h1]; exact hs
+  · by_cases hx : h ∈ rest.map (·.hash)
+    · obtain ⟨c, hc, hch⟩ := List.mem_map.mp hx
+      rw [← hch, m.dbNew c hc]; rfl
+    · rw [m.dbOld h hx]; exact hs
+
+theorem entryIn_filter {m : EpochMap} {p : Nat × Entries → Bool} {x : Nat × Nat} (h : EntryIn (m.filter p) x) :
+    EntryIn m x := by
+  obtain ⟨q, hq, hx⟩ := h
+  exact ⟨q, (List.mem_filter.mp hq).1, hx⟩
+
+theorem Src_finalizeEpoch {u : Univ} {ops : List Op} {st : St} (hdr : Blk) (h : Src ops st) :
+    Src ops (finalizeEpoch u st hdr).1 := by
+  have base : Src ops st := h
+  unfold finalizeEpoch
+  split
+  · exact base
+  · split
+    · exact base
+    · simp only []
+      split
+      · exact base
+      · split
+        · exact base
+        · rename_i entries hl
+          split
+          · exact base
+          · rename_i x hper
+            have hx : x ∈ persisted st entries := by rw [hper]; exact List.mem_cons_self ..
+            have hxm := List.mem_filter.mp hx
+            have hann : Op.ann x.1 x.2 ∈ ops := h.e x (.inl (entryIn_of_lookup hl hxm.1))
+            refine ⟨?_, base.c, ?_, base.dc⟩
+            · intro y hy
+              rcases hy with hy | hy
+              · exact base.e y (.inl (entryIn_filter hy))
+              · exact base.e y (.inr (entryIn_filter hy))
+            · intro p hp
+              rcases mem_insert hp with h1 | h1
+              · rw [h1]
+                exact .inr ⟨x.1, hann, hxm.2⟩
+              · exact base.de p h1
+          · exact base
+
+theorem Src_finalizeConfig {u : Univ} {ops : List Op} {st : St} (hdr : Blk) (h : Src ops st) :
+    Src ops (finalizeConfig u st hdr).1 := by
+  have base : Src ops st := h
+  unfold finalizeConfig
+  split
+  · exact base
+  · split
+    · exact base
+    · simp only []
+      split
+      · exact base
+      · split
+        · exact base
+        · rename_i entries hl
+          split
+          · exact base
+          · rename_i x hper
+            have hx : x ∈ persisted st entries := by rw [hper]; exact List.mem_cons_self ..
+            have hxm := List.mem_filter.mp hx
+            have hcfg : Op.cfg x.1 x.2 ∈ ops := h.c x (.inl (entryIn_of_lookup hl hxm.1))
+            refine ⟨base.e, ?_, base.de, ?_⟩
+            · intro y hy
+              rcases hy with hy | hy
+              · exact base.c y (.inl (entryIn_filter hy))
+              · exact base.c y (.inr (entryIn_filter hy))
+            · intro p hp
+              rcases mem_insert hp with h1 | h1
+              · rw [h1]
+                exact .inr ⟨x.1, hcfg, hxm.2⟩
+              · exact base.dc p h1
+          · exact base
+
+theorem Src_init (l : Nat) : Src [] (St.init l) where
+  e := by rintro x (⟨p, hp, _⟩ | ⟨p, hp, _⟩) <;> simp [St.init] at hp
+  c := by rintro x (⟨p, hp, _⟩ | ⟨p, hp, _⟩) <;> simp [St.init] at hp
+  de := by intro p hp; simp [St.init] at hp
+  dc := by intro p hp; simp [St.init] at hp
+
+theorem Src_step {u : Univ} {ops : List Op} {st : St} (w : WF u st) (o : Op) (h : Src ops st) :
+    Src (ops ++ [o]) (step u st o).1 := by
+  have base : Src (ops ++ [o]) st := Src_sub o (Sub.refl st) h
+  cases o with
+  | add hh =>
+    refine ⟨base.e, base.c, ?_, ?_⟩
+    · intro p hp
+      exact DOK_mono _ (fun x hx => dbHdr_mono_add st.bs _ x hx) (h.de p hp)
+    · intro p hp
+      exact DOK_mono _ (fun x hx => dbHdr_mono_add st.bs _ x hx) (h.dc p hp)
+  | ann hh d =>
     simp only [step]
-    cases epochForBlock st hd with
-    | none => exact ⟨weakE _ rfl, weakC _ rfl⟩
-    | some ep =>
-      refine ⟨?_, weakC _ rfl⟩
-      intro e es x hl hx
-      rcases store_mem hl hx with hnew | ⟨es0, hl0, hx0⟩
-      · exact ⟨hd, by simp [hnew], by simp [hnew]⟩
-      · obtain ⟨hh, h1, h2⟩ := h.1 e es0 x hl0 hx0
-        exact ⟨hh, by simp [h1], h2⟩
-  | cfg hd d =>
+    split
+    · refine ⟨?_, base.c, base.de, base.dc⟩
+      intro x hx
+      rcases hx with hx | hx
+      · rcases entryIn_store hx with h1 | h1
+        · rw [h1]; simp
+        · exact base.e x (.inl h1)
+      · rcases entryIn_store hx with h1 | h1
+        · rw [h1]; simp
+        · exact base.e x (.inr h1)
+    · exact base
+  | cfg hh d =>
     simp only [step]
-    cases epochForBlock st hd with
-    | none => exact ⟨weakE _ rfl, weakC _ rfl⟩
-    | some ep =>
-      refine ⟨weakE _ rfl, ?_⟩
-      intro e es x hl hx
-      rcases store_mem hl hx with hnew | ⟨es0, hl0, hx0⟩
-      · exact ⟨hd, by simp [hnew], by simp [hnew]⟩
-      · obtain ⟨hh, h1, h2⟩ := h.2 e es0 x hl0 hx0
-        exact ⟨hh, by simp [h1], h2⟩
-  | dbe e d => exact ⟨weakE _ rfl, weakC _ rfl⟩
-  | dbc e d => exact ⟨weakE _ rfl, weakC _ rfl⟩
-  | restart => exact ⟨weakE _ rfl, weakC _ rfl⟩
+    split
+    · refine ⟨base.e, ?_, base.de, base.dc⟩
+      intro x hx
+      rcases hx with hx | hx
+      · rcases entryIn_store hx with h1 | h1
+        · rw [h1]; simp
+        · exact base.c x (.inl h1)
+      · rcases entryIn_store hx with h1 | h1
+        · rw [h1]; simp
+        · exact base.c x (.inr h1)
+    · exact base
+  | dbe e d =>
+    refine ⟨base.e, base.c, ?_, base.dc⟩
+    intro p hp
+    rcases mem_insert hp with h1 | h1
+    · rw [h1]; exact .inl ⟨e, by simp⟩
+    · exact base.de p h1
+  | dbc e d =>
+    refine ⟨base.e, base.c, base.de, ?_⟩
+    intro p hp
+    rcases mem_insert hp with h1 | h1
+    · rw [h1]; exact .inl ⟨e, by simp⟩
+    · exact base.dc p h1
+  | restart =>
+    refine ⟨?_, ?_, base.de, base.dc⟩
+    · intro x hx
+      exact base.e x (.inr (by rcases hx with hx | hx <;> exact hx))
+    · intro x hx
+      exact base.c x (.inr (by rcases hx with hx | hx <;> exact hx))
+  | fin hh r =>
+    simp only [step]
+    -- after SetFinalisedHash: the header table has grown, nothing else of interest changed
+    have mid : ∀ fsn', Src (ops ++ [Op.fin hh r])
+        { st with bs := (C17.setFinalised genesis.hash st.bs hh r 0).1, fsn := fsn' } := by
+      intro fsn'
+      refine ⟨base.e, base.c, ?_, ?_⟩
+      · intro p hp
+        exact DOK_mono _ (fun x hx => dbHdr_mono_fin w.inv hh r 0 x hx) (h.de p hp)
+      · intro p hp
+        exact DOK_mono _ (fun x hx => dbHdr_mono_fin w.inv hh r 0 x hx) (h.dc p hp)
+    split
+    · exact Src_finalizeConfig _ (Src_finalizeEpoch _ (mid _))
+    · have := mid st.fsn
+      exact ⟨this.e, this.c, this.de, this.dc⟩
+  | skipE hh s c =>
+    simp only [step]
+    split
+    · exact base
+    · exact Src_sub _ (getSkippedEpochData_sub st s c _) h
+  | skipC hh s c =>
+    simp only [step]
+    split
+    · exact base
+    · exact Src_sub _ (getSkippedConfig_sub st s c _) h
+  | upd hh s c =>
+    simp only [step]
+    split
+    · exact base
+    · exact Src_sub _ (updateSkipped_sub st s c _) h
 
-theorem Src_reachable (l : Nat) (ops : List Op) : SrcE ops (run l ops) ∧ SrcC ops (run l ops) := by
-  have := foldl_inv (fun s o => (step s o).1) (fun pre s => SrcE pre s ∧ SrcC pre s)
-    (fun pre s o ih => Src_step o ih) ops [] (St.init l)
-    ⟨by intro e es x hl; simp [St.init, lookup] at hl, by intro e es x hl; simp [St.init, lookup] at hl⟩
-  simpa [run] using this
+theorem Src_reachable (u : Univ) (hu : u.blk genesis.hash = genesis) (l : Nat) (ops : List Op)
+    (hops : ∀ o ∈ ops, OpOK u o) : Src ops (run u l ops) := by
+  have := foldl_inv (fun s o => (step u s o).1)
+    (fun pre s => (∀ o ∈ pre, OpOK u o) → WF u s ∧ Src pre s)
+    (fun pre s o ih hpre => by
+      have ih' := ih (fun o' ho' => hpre o' (by simp [ho']))
+      exact ⟨WF_step ih'.1 o (hpre o (by simp)), Src_step ih'.1 o ih'.2⟩)
+    ops [] (St.init l) (fun _ => ⟨WF_init u hu l, Src_init l⟩)
+  exact (this (by simpa using hops)).2
 
-/-! ### the property over all histories -/
+/-! ### the property over all histories (finalisation included) -/
 
-/-- the hypotheses `Consistent`/`HdrOK` hold for every imported header of a well-formed state -/
-theorem C26_imported_header_ok {st : St} (hwf : WF st) {x : Hdr} (hx : x ∈ st.imported) :
-    Consistent st x ∧ HdrOK st x :=
-  ⟨fun y hy => by rw [hwf.uniq x hx] at hy; exact (Option.some.inj hy).symm, hwf.num x hx⟩
-
-/-- **own fork, all histories**: any in-memory epoch data returned for `hdr` after any sequence of imports,
-    announcements, persisted definitions and restarts was announced (`HandleBABEDigest`) by `hdr` itself or by
-    one of its ancestors. -/
-theorem C26_own_fork_history (l : Nat) (ops : List Op) (hdr : Hdr) (hc : Consistent (run l ops) hdr)
-    (e : Nat) (c : Entries) (h : getEpochDataRaw (run l ops) e hdr = .mem c) :
-    c ≠ [] ∧ ∀ x ∈ c, Anc (run l ops) x.1 hdr ∧ ∃ b, Op.ann b x.2 ∈ ops ∧ b.hash = x.1 := by
-  obtain ⟨hne, es, hl, hall⟩ := C26_own_fork hc h
-  exact ⟨hne, fun x hx => ⟨(hall x hx).2, (Src_reachable l ops).1 e es x hl (hall x hx).1⟩⟩
+/-- **own fork, all histories**: any in-memory epoch data returned for the header with hash `h` after any
+    sequence of imports, announcements, finalisations (pruning), skipped-epoch updates, persisted definitions
+    and restarts was announced (`HandleBABEDigest`) by that block itself or by one of its ancestors. -/
+theorem C26_own_fork_history (u : Univ) (hu : u.blk genesis.hash = genesis) (l : Nat) (ops : List Op)
+    (hops : ∀ o ∈ ops, OpOK u o) (h : Nat) (hh : (u.blk h).hash = h) (e : Nat) (c : Entries)
+    (hq : getEpochDataRaw (run u l ops) e (u.blk h) = .mem c) :
+    c ≠ [] ∧ ∀ x ∈ c, Anc (run u l ops) x.1 (u.blk h) ∧ Op.ann x.1 x.2 ∈ ops := by
+  have w := C26_wf_reachable u hu l ops hops
+  obtain ⟨hne, es, hl, hall⟩ := C26_own_fork w (w.consistent hh) hq
+  exact ⟨hne, fun x hx => ⟨(hall x hx).2,
+    (Src_reachable u hu l ops hops).e x (.inl (entryIn_of_lookup hl (hall x hx).1))⟩⟩
 
 /-- the same for the configuration -/
-theorem C26_config_own_fork_history (l : Nat) (ops : List Op) (hops : ∀ o ∈ ops, OpOK o) (hdr : Hdr)
-    (hc : Consistent (run l ops) hdr) (hok : HdrOK (run l ops) hdr)
-    (e : Nat) (c : Entries) (h : getConfigData (run l ops) hdr e = .mem c) :
-    c ≠ [] ∧ ∀ x ∈ c, Anc (run l ops) x.1 hdr ∧ ∃ b, Op.cfg b x.2 ∈ ops ∧ b.hash = x.1 := by
-  have := C26_config_latest_earlier (C26_wf_reachable l ops hops) hc hok e
-  rw [h] at this
+theorem C26_config_own_fork_history (u : Univ) (hu : u.blk genesis.hash = genesis) (l : Nat) (ops : List Op)
+    (hops : ∀ o ∈ ops, OpOK u o) (h : Nat) (hh : (u.blk h).hash = h) (hok : HdrOK (run u l ops) (u.blk h))
+    (e : Nat) (c : Entries) (hq : getConfigData (run u l ops) (u.blk h) e = .mem c) :
+    c ≠ [] ∧ ∀ x ∈ c, Anc (run u l ops) x.1 (u.blk h) ∧ Op.cfg x.1 x.2 ∈ ops := by
+  have w := C26_wf_reachable u hu l ops hops
+  have := C26_config_latest_earlier w (w.consistent hh) hok e
+  rw [hq] at this
   obtain ⟨hne, e', es, _, _, _, hl, hall, _⟩ := this
-  exact ⟨hne, fun x hx => ⟨(hall x hx).2, (Src_reachable l ops).2 e' es x hl (hall x hx).1⟩⟩
+  exact ⟨hne, fun x hx => ⟨(hall x hx).2,
+    (Src_reachable u hu l ops hops).c x (.inl (entryIn_of_lookup hl (hall x hx).1))⟩⟩
+
+/-- the same for the skipped-epoch lookups (`GetSkippedEpochDataRaw`, `GetSkippedConfigData`) -/
+theorem C26_skipped_own_fork_history (u : Univ) (hu : u.blk genesis.hash = genesis) (l : Nat) (ops : List Op)
+    (hops : ∀ o ∈ ops, OpOK u o) (h : Nat) (hh : (u.blk h).hash = h) (hok : HdrOK (run u l ops) (u.blk h))
+    (s cur : Nat) :
+    (∀ c, (getSkippedEpochData (run u l ops) s cur (u.blk h)).2 = .mem c →
+      c ≠ [] ∧ ∀ x ∈ c, Anc (run u l ops) x.1 (u.blk h) ∧ Op.ann x.1 x.2 ∈ ops) ∧
+    (∀ c, (getSkippedConfig (run u l ops) s cur (u.blk h)).2 = .mem c →
+      c ≠ [] ∧ ∀ x ∈ c, Anc (run u l ops) x.1 (u.blk h) ∧ Op.cfg x.1 x.2 ∈ ops) := by
+  have w := C26_wf_reachable u hu l ops hops
+  have src := Src_reachable u hu l ops hops
+  refine ⟨fun c hc => ?_, fun c hc => ?_⟩
+  · obtain ⟨hne, es, hl, hall⟩ := C26_skipped_own_fork w (w.consistent hh) hc
+    exact ⟨hne, fun x hx => ⟨(hall x hx).2, src.e x (.inl (entryIn_of_lookup hl (hall x hx).1))⟩⟩
+  · obtain ⟨hne, hall⟩ := C26_skipped_config_own_fork w (w.consistent hh) hok hc
+    exact ⟨hne, fun x hx => ⟨(hall x hx).1, src.c x (.inl (hall x hx).2)⟩⟩
+
+/-- **persisted definitions**: a definition answered from the database was stored explicitly or was copied on
+    finalisation from the announcement of a block that is in the header table, i.e. of a finalised block -/
+theorem C26_db_from_finalised (u : Univ) (hu : u.blk genesis.hash = genesis) (l : Nat) (ops : List Op)
+    (hops : ∀ o ∈ ops, OpOK u o) (hdr : Blk) (e d : Nat) :
+    (getEpochDataRaw (run u l ops) e hdr = .db d → DOK .ann .dbe ops (run u l ops).bs d) ∧
+    (getConfigData (run u l ops) hdr e = .db d → DOK .cfg .dbc ops (run u l ops).bs d) := by
+  have src := Src_reachable u hu l ops hops
+  constructor
+  · intro hq
+    unfold getEpochDataRaw at hq
+    by_cases he : e = 0
+    · simp [he] at hq
+    · simp only [he, if_false] at hq
+      cases hd : lookup (run u l ops).dbEpoch e with
+      | some d' =>
+        simp only [hd, Res.db.injEq] at hq
+        subst hq
+        exact src.de _ (lookup_mem _ _ _ hd)
+      | none => simp only [hd] at hq; exact absurd hq (retrieve_not_db _ _ _ _ _)
+  · intro hq
+    have key : ∀ e, getConfigData (run u l ops) hdr e = .db d → ∃ e', lookup (run u l ops).dbConfig e' = some d := by
+      intro e
+      induction e with
+      | zero => intro h; simp [getConfigData] at h
+      | succ k ih =>
+        intro h
+        unfold getConfigData at h
+        cases hd : lookup (run u l ops).dbConfig (k + 1) with
+        | some d' =>
+          simp only [hd, Res.db.injEq] at h
+          exact ⟨k + 1, by rw [hd, h]⟩
+        | none =>
+          simp only [hd] at h
+          cases hr : retrieve (run u l ops) (run u l ops).nextConfig (k + 1) hdr with
+          | errEpoch => rw [hr] at h; exact ih h
+          | errHash => rw [hr] at h; exact ih h
+          | db d' => exact absurd hr (retrieve_not_db _ _ _ _ _)
+          | gen => simp [hr] at h
+          | mem c => simp [hr] at h
+          | errParent => simp [hr] at h
+          | timeout => simp [hr] at h
+    obtain ⟨e', he'⟩ := key e hq
+    exact src.dc _ (lookup_mem _ _ _ he')
 
 /-- **prompt, all histories**: no lookup hangs, for any header whose number fits its parent's -/
-theorem C26_prompt_history (l : Nat) (ops : List Op) (hops : ∀ o ∈ ops, OpOK o) (hdr : Hdr)
-    (hok : HdrOK (run l ops) hdr) (e : Nat) :
-    getEpochDataRaw (run l ops) e hdr ≠ .timeout ∧ getConfigData (run l ops) hdr e ≠ .timeout :=
-  C26_never_hangs (C26_wf_reachable l ops hops) hok e
+theorem C26_prompt_history (u : Univ) (hu : u.blk genesis.hash = genesis) (l : Nat) (ops : List Op)
+    (hops : ∀ o ∈ ops, OpOK u o) (hdr : Blk) (hok : HdrOK (run u l ops) hdr) (e : Nat) :
+    getEpochDataRaw (run u l ops) e hdr ≠ .timeout ∧ getConfigData (run u l ops) hdr e ≠ .timeout :=
+  C26_never_hangs (C26_wf_reachable u hu l ops hops) hok e
 
-/-- **the epoch of a block is counted on its own fork**: when several blocks have number 1, the first slot
-    `GetEpochForBlock` uses is the slot of the queried block itself (number 1) or of the number-1 block that
-    is its ancestor; with a single number-1 block there is only one candidate. -/
-theorem C26_first_slot_own_fork {st : St} {bh s : Nat} (h : retrieveFirst st bh = .ok s) :
-    (∃ x, st.imported.filter (fun x => x.number = 1) = [x] ∧ s = x.slot) ∨
+/-- the hypotheses on a queried header hold for every header `GetHeader` knows (imported or finalised) -/
+theorem C26_known_header_ok {u : Univ} {st : St} (w : WF u st) {h : Nat} (hh : (u.blk h).hash = h)
+    (hk : (getHeader st h).isSome) : Consistent st (u.blk h) ∧ HdrOK st (u.blk h) :=
+  ⟨w.consistent hh, w.hdrOK hh hk⟩
+
+/-- **the epoch of a block is counted on its own fork**: while the first-slot key is not yet set and several
+    blocks have number 1, the first slot `GetEpochForBlock` uses is the slot of the queried block itself
+    (number 1) or of a number-1 block that is its ancestor. -/
+theorem C26_first_slot_own_fork {u : Univ} {st : St} (inv : C17.Inv genesis st.bs) {bh s : Nat}
+    (hf : st.fsn = 0) (h : retrieveFirst u st bh = .ok s) :
+    (∃ x, hashesAt1 st = [x] ∧ s = u.slot x) ∨
     ∃ b, getHeader st bh = some b ∧
-      ((b.number = 1 ∧ s = b.slot) ∨
-        ∃ x ∈ st.imported, x.number = 1 ∧ (AncI st x.hash bh ∨ x.hash = bh) ∧ s = x.slot) := by
+      ((b.number = 1 ∧ s = u.slot b.hash) ∨
+        ∃ x ∈ hashesAt1 st, (AncI st x bh ∨ x = bh) ∧ s = u.slot x) := by
   unfold retrieveFirst at h
-  cases hl : st.imported.filter (fun x => x.number = 1) with
+  simp only [hf, ne_eq, not_true_eq_false, if_false] at h
+  cases hl : hashesAt1 st with
   | nil => simp [hl] at h
   | cons x t =>
     cases t with
     | nil =>
-      simp only [hl, Slot.ok.injEq] at h
-      exact .inl ⟨x, rfl, h.symm⟩
+      simp only [hl] at h
+      cases hg : getHeader st x with
+      | none => simp [hg] at h
+      | some y =>
+        simp only [hg, Slot.ok.injEq] at h
+        exact .inl ⟨x, rfl, h.symm⟩
     | cons y t' =>
       simp only [hl] at h
       cases hb : getHeader st bh with
@@ -819,37 +1015,59 @@ theorem C26_first_slot_own_fork {st : St} {bh s : Nat} (h : retrieveFirst st bh 
         · simp only [h1, if_true, Slot.ok.injEq] at h
           exact .inl ⟨h1, h.symm⟩
         · simp only [h1, if_false] at h
-          cases hf : (x :: y :: t').find? (fun x => isDesc st x.hash bh == some true) with
-          | none => simp [hf] at h
-          | some z =>
-            simp only [hf, Slot.ok.injEq] at h
-            have hz := List.mem_of_find?_eq_some hf
-            have hzp := List.find?_some hf
-            rw [← hl] at hz
-            have hzm := List.mem_filter.mp hz
-            refine .inr ⟨z, hzm.1, by simpa using hzm.2, isDesc_sound (by simpa using hzp), h.symm⟩
+          have scan : ∀ (l : List Nat), scanFirst u st bh l = .ok s →
+              ∃ z ∈ l, (AncI st z bh ∨ z = bh) ∧ s = u.slot z := by
+            intro l
+            induction l with
+            | nil => intro hs; simp [scanFirst] at hs
+            | cons z r ih =>
+              intro hs
+              unfold scanFirst at hs
+              cases hd : isDesc st z bh with
+              | none => simp [hd] at hs
+              | some v =>
+                cases v with
+                | true =>
+                  simp only [hd] at hs
+                  cases hgz : getHeader st z with
+                  | none => simp [hgz] at hs
+                  | some _ =>
+                    simp only [hgz, Slot.ok.injEq] at hs
+                    exact ⟨z, List.mem_cons_self .., isDesc_sound inv hd, hs.symm⟩
+                | false =>
+                  simp only [hd] at hs
+                  obtain ⟨z', hz', hr⟩ := ih hs
+                  exact ⟨z', List.mem_cons_of_mem _ hz', hr⟩
+          obtain ⟨z, hz, hr⟩ := scan _ h
+          exact .inr ⟨z, hz, hr⟩
 
 /-! ### the loop before the repair, and concrete (non-vacuous) instances -/
 
-def wA1 : Hdr := { hash := 2, parent := 1, number := 1, slot := 10 }
-def wA2 : Hdr := { hash := 3, parent := 2, number := 2, slot := 11 }
-def wA3 : Hdr := { hash := 4, parent := 3, number := 3, slot := 12 }
-def wB2 : Hdr := { hash := 5, parent := 2, number := 2, slot := 11 }
+def wA1 : Blk := { hash := 2, parent := 1, number := 1, sroot := 0 }
+def wA2 : Blk := { hash := 3, parent := 2, number := 2, sroot := 0 }
+def wA3 : Blk := { hash := 4, parent := 3, number := 3, sroot := 0 }
+def wB2 : Blk := { hash := 5, parent := 2, number := 2, sroot := 0 }
+
+def wU : Univ :=
+  { blk := fun h => if h = 1 then genesis else if h = 2 then wA1 else if h = 3 then wA2 else if h = 4 then wA3
+      else if h = 5 then wB2 else default
+    slot := fun h => if h = 2 then 10 else if h = 3 then 11 else if h = 4 then 12 else if h = 5 then 11 else 0 }
+
 /-- chain g ← a1 ← a2 ← a3, sibling b2 of a2 announces epoch data 7 and config 9 -/
-def wOps : List Op := [.add wA1, .add wA2, .add wA3, .add wB2, .ann wB2 7, .cfg wB2 9]
-def wSt : St := run 200 wOps
+def wOps : List Op := [.add 2, .add 3, .add 4, .add 5, .ann 5 7, .cfg 5 9]
+def wSt : St := run wU 200 wOps
 
-def wLit : St :=
-  { epochLen := 200, imported := [genesis, wA1, wA2, wA3, wB2], nextEpoch := [(1, [(5, 7)])],
-    nextConfig := [(1, [(5, 9)])], dbEpoch := [], dbConfig := [] }
-
-theorem wSt_eq : wSt = wLit := by rfl
+theorem wU_ok : wU.blk genesis.hash = genesis := rfl
+theorem wOps_ok : ∀ o ∈ wOps, OpOK wU o := by
+  intro o ho
+  simp only [wOps, List.mem_cons, List.mem_nil_iff, or_false] at ho
+  rcases ho with rfl | rfl | rfl | rfl | rfl | rfl <;> simp [OpOK, wU, wA1, wA2, wA3, wB2, genesis]
 
 theorem old_loop_at_a1 : ∀ fuel, findAncOld wSt [(5, 7)] wA2 fuel wA1 = .outOfFuel
   | 0 => rfl
   | fuel + 1 => by
-    have h1 : [((5 : Nat), (7 : Nat))].filter (hit wSt wA1.hash) = [] := by rw [wSt_eq]; decide
-    have h2 : getHeader wSt wA2.parent = some wA1 := by rw [wSt_eq]; decide
+    have h1 : [((5 : Nat), (7 : Nat))].filter (hit wSt wA1.hash) = [] := by decide
+    have h2 : getHeader wSt wA2.parent = some wA1 := by decide
     unfold findAncOld
     simp only [h1, h2, ne_eq, not_true_eq_false, if_false]
     have h3 : wA1.parent ≠ 0 := by decide
@@ -861,8 +1079,8 @@ theorem old_loop_at_a1 : ∀ fuel, findAncOld wSt [(5, 7)] wA2 fuel wA1 = .outOf
 theorem C26_old_loop_diverges : ∀ fuel, findAncOld wSt [(5, 7)] wA2 fuel wA2 = .outOfFuel
   | 0 => rfl
   | fuel + 1 => by
-    have h1 : [((5 : Nat), (7 : Nat))].filter (hit wSt wA2.hash) = [] := by rw [wSt_eq]; decide
-    have h2 : getHeader wSt wA2.parent = some wA1 := by rw [wSt_eq]; decide
+    have h1 : [((5 : Nat), (7 : Nat))].filter (hit wSt wA2.hash) = [] := by decide
+    have h2 : getHeader wSt wA2.parent = some wA1 := by decide
     unfold findAncOld
     simp only [h1, h2, ne_eq, not_true_eq_false, if_false]
     have h3 : wA2.parent ≠ 0 := by decide
@@ -871,13 +1089,21 @@ theorem C26_old_loop_diverges : ∀ fuel, findAncOld wSt [(5, 7)] wA2 fuel wA2 =
 
 /-- the repaired loop on the same witness: prompt failure for a2/a3, own data for b2, and the genesis
     configuration (not an error, not b2's) for the blocks of the other fork -/
-example : getEpochDataRaw wSt 1 wA2 = .errHash := by rw [wSt_eq]; decide
-example : getEpochDataRaw wSt 1 wA3 = .errHash := by rw [wSt_eq]; decide
-example : getEpochDataRaw wSt 1 wB2 = .mem [(5, 7)] := by rw [wSt_eq]; decide
-example : getConfigData wSt wA3 1 = .gen := by rw [wSt_eq]; decide
-example : getConfigData wSt wB2 3 = .mem [(5, 9)] := by rw [wSt_eq]; decide
-example : ∀ o ∈ wOps, OpOK o := by decide
-example : Consistent wSt wA3 ∧ HdrOK wSt wA3 :=
-  C26_imported_header_ok (C26_wf_reachable 200 wOps (by decide)) (by show wA3 ∈ wSt.imported; rw [wSt_eq]; decide)
+example : getEpochDataRaw wSt 1 wA2 = .errHash := by decide
+example : getEpochDataRaw wSt 1 wA3 = .errHash := by decide
+example : getEpochDataRaw wSt 1 wB2 = .mem [(5, 7)] := by decide
+example : getConfigData wSt wA3 1 = .gen := by decide
+example : getConfigData wSt wB2 3 = .mem [(5, 9)] := by decide
+example : WF wU wSt := C26_wf_reachable wU wU_ok 200 wOps wOps_ok
+
+/-- finalising a2 prunes b2: its announcements stay in the maps but no surviving block is served from them;
+    finalising a block that announced persists its data for everybody -/
+def wSt2 : St := run wU 200 (wOps ++ [.fin 3 1])
+example : (wSt2.bs.tree.map (·.hash)) = [3, 4] := by decide
+example : getEpochDataRaw wSt2 1 wA3 = .errHash := by decide
+example : getConfigData wSt2 wA3 2 = .gen := by decide
+def wSt3 : St := run wU 200 [.add 2, .add 3, .add 5, .ann 2 6, .ann 5 7, .fin 2 1]
+example : getEpochDataRaw wSt3 1 wA2 = .db 6 := by decide
+example : wSt3.nextEpoch = [] := by decide
 
 end Gossamer.C26
